@@ -1,10 +1,11 @@
 """C07 -- structured-array field operations preserve data, types and documented order."""
 import ast
+import collections
+import itertools
 
-from vcheck import effects, rules
-from vcheck.core import PyRepo, AnalysisError, call_name, dotted_name, kwarg, norm, walk_no_nested
+from vcheck import effects
+from vcheck.core import PyRepo, call_name, dotted_name, norm
 from vcheck.ctable import c_summaries
-from vcheck.rules import cfg_of
 
 MANIFEST = dict(
     text="Structural rule checking (not a behavioural proof) of the five field operations and the copy/split helpers: the result is "
@@ -16,15 +17,1591 @@ MANIFEST = dict(
          "any argument).",
     note="Not decided: element-wise equality (numpy field assignment trusted), rejection of a shared name (delegated to numpy.dtype "
          "construction, a trusted idiom). remove_fields documents only scalar/list names; tuple/array name lists are an observation.",
-    technique="static analysis: AST/CFG provenance and control-dependence rules, alias analysis for freshness of the result",
+    technique="static analysis: symbolic evaluation of the field-list code (descr provenance, iteration order, guards), alias analysis "
+              "for freshness of the result",
 )
 
 NU = "esutil.numpy_util."
 
 
-# rules that keep their verdict however the code is laid out (decided by term equality, effect analysis or dominance over
-# resolved calls); every other rule of this check is a template rule (vcheck.core.Check.obt)
+# rules that keep their verdict however the code is laid out (decided on the symbolic values below and on the effect analysis);
+# every other rule of this check is a template rule (vcheck.core.Check.obt): it is evaluated on the same values but a mismatch
+# in a restructured function is "not recognised", not a violation
 SEMANTIC = ('R07.alloc', 'R07.args', 'R07.copier', 'R07.defaults', 'R07.fresh')
+
+
+# --------------------------------------------------------------------------------------------------------------------
+# A small abstract interpreter for the field-list code (descr provenance).
+#
+# The rules below are statements about *values*: "the dtype handed to zeros() is the list of the input's descr entries whose
+# name is requested, in original order".  To decide them independently of how the list is spelled (append loop, list
+# comprehension, `+`, `+=`, a dict name->entry, np.where on an array of names, a private helper that was extracted or
+# inlined, a guard clause instead of if/else, any() instead of a loop ...) the function is executed once on symbolic terms:
+#
+#   ('P', name)                      the caller's argument
+#   ('DT', A) / ('NPDT', t)          A.dtype / np.dtype(t)
+#   ('DESCR', F) ('NAMES', F) ('MAP', F) ('FIELDS', F)      F.descr, F.names, dict name->entry, F.fields
+#   ('ENTRY', F, key) ('NAME', F, key)   one descr entry / its name; key = ('K', loop id): the entry visited by that loop,
+#                                        ('N', term): the entry whose name is `term`
+#   ('LIST', id)                     a list built locally; its content is a sequence of segments (loops, guards, element):
+#                                    "for the iterations of `loops` that pass `guards`, in order, the element"
+#   ('NORM', term, mode, types)      a names argument after scalar wrapping (mode 'unless'/'when' isinstance, 'atleast_1d')
+#   ('ALLOC', n)                     the n-th array allocation
+#
+# Everything else is an opaque term; nothing is guessed: a rule that does not find the terms it is about reports
+# "not recognised".
+# --------------------------------------------------------------------------------------------------------------------
+N_, RET, RAISE, CONT, BRK = "N", "RET", "RAISE", "CONT", "BRK"
+ALLOCATORS = {"zeros": True, "zeros_like": True, "empty": False, "empty_like": False, "ones": False, "ones_like": False}
+COPIERS = ("copy_fields", "copy_fields_by_name")
+_Seg = collections.namedtuple("_Seg", "loops guards elem")
+
+
+class _Unrec(Exception):
+    """a construct the evaluator does not model"""
+
+
+class _Loop:
+    __slots__ = ("id", "src", "node", "broken")
+
+    def __init__(self, i, src, node):
+        self.id, self.src, self.node, self.broken = i, src, node, False
+
+    def __repr__(self):
+        return "L%d<%s>" % (self.id, _show(self.src))
+
+
+class _Guard:
+    """cond holds with polarity pol.  kind says what happens to the iterations/paths where it does not:
+    'filter' they go on normally (the element is skipped), 'reject' they raise, 'path' they return, 'break' the loop ends"""
+    __slots__ = ("cond", "pol", "kind", "node")
+
+    def __init__(self, cond, pol, node=None, kind="filter"):
+        self.cond, self.pol, self.node, self.kind = cond, pol, node, kind
+
+    def __repr__(self):
+        return "%s%s/%s" % ("" if self.pol else "not ", _show(self.cond), self.kind)
+
+
+class _Event:
+    __slots__ = ("kind", "d", "loops", "guards", "seq", "site", "depth", "node")
+
+    def __repr__(self):
+        return "<%s#%d %s loops=%s guards=%s>" % (self.kind, self.seq, {k: _show(v) for k, v in self.d.items()}, list(self.loops), list(self.guards))
+
+
+def _show(t):
+    if isinstance(t, tuple):
+        if t and t[0] == "P":
+            return t[1]
+        if t and t[0] == "C":
+            return repr(t[1])
+        return "%s(%s)" % (t[0], ", ".join(_show(x) for x in t[1:])) if t and isinstance(t[0], str) else "(%s)" % ", ".join(_show(x) for x in t)
+    if isinstance(t, frozenset):
+        return "{%s}" % ",".join(sorted(t))
+    return str(t)
+
+
+class _St:
+    """one frame's variables plus the iteration/guard context of the statement being executed"""
+
+    def __init__(self, vars_, module, loops=(), guards=(), closure=None):
+        self.vars, self.module, self.loops, self.guards, self.closure = vars_, module, tuple(loops), tuple(guards), closure
+
+    def child(self, loops=None, guards=None, own_vars=False):
+        return _St(dict(self.vars) if own_vars else self.vars, self.module, self.loops if loops is None else loops,
+                   self.guards if guards is None else guards, self.closure)
+
+    def lookup(self, name):
+        s = self
+        while s is not None:
+            if name in s.vars:
+                return s.vars[name]
+            s = s.closure
+        return None
+
+
+def _strip_prefix(cur, base):
+    i = 0
+    while i < len(cur) and i < len(base) and cur[i] is base[i]:
+        i += 1
+    return tuple(cur[i:])
+
+
+def _param_of(t):
+    """the parameter a (possibly normalised) names/values argument stands for"""
+    while isinstance(t, tuple) and t and t[0] == "NORM":
+        t = t[1]
+    return t[1] if isinstance(t, tuple) and len(t) == 2 and t[0] == "P" else None
+
+
+def _members(t):
+    """canonical container of a membership test: names tuple, dict of names and dtype.fields have the same keys"""
+    if isinstance(t, tuple) and t and t[0] in ("MAP", "FIELDS", "NAMES"):
+        return ("NAMES", t[1])
+    return t
+
+
+def _subterms(t):
+    yield t
+    if isinstance(t, tuple):
+        for x in t:
+            if isinstance(x, tuple):
+                for y in _subterms(x):
+                    yield y
+
+
+class _Interp:
+    def __init__(self, repo, fi):
+        self.repo, self.root = repo, fi
+        self.heap = {}            # list id -> [segments]
+        self.listctx = {}         # list id -> (loops, guards) where it was created
+        self.events = []
+        self.loops = {}
+        self.uses = []            # (term, guards in force) for terms used as a container (iterated, tested for membership, converted to list/set)
+        self.cur = None
+        self._ids = itertools.count(1)
+        self.depth = 0
+        self.site = None
+        self.frames = []
+        self.stack = []
+        self.failed = None
+        self.nalloc = 0
+        self._pre = {}
+        self._funcs = {}
+
+    # -- driver ------------------------------------------------------------------------------------------------------
+    def run(self):
+        fi = self.root
+        st = _St({p.lstrip("*"): ("P", p.lstrip("*")) for p in fi.params}, fi.module)
+        try:
+            status = self.block(fi.node.body, st)
+            if N_ in status:
+                self.event("return", st, None, value=("C", None), implicit=True)
+        except _Unrec as e:
+            self.failed = str(e)
+        except RecursionError:
+            self.failed = "recursion"
+        except Exception as e:      # a term shape the evaluator did not expect: no verdict, never a violation
+            self.failed = "evaluator: %s: %s" % (type(e).__name__, e)
+        return self
+
+    def event(self, kind, st, node, **d):
+        e = _Event()
+        e.kind, e.d, e.loops, e.guards, e.seq, e.site, e.depth, e.node = kind, d, st.loops, st.guards, len(self.events), self.site, self.depth, node
+        self.events.append(e)
+        return e
+
+    def use(self, t):
+        self.uses.append((t, self.cur.guards if self.cur is not None else ()))
+
+    def of(self, kind):
+        return [e for e in self.events if e.kind == kind]
+
+    # -- lists -------------------------------------------------------------------------------------------------------
+    def newlist(self, st, segs=(), ctx=None):
+        i = next(self._ids)
+        self.heap[i] = list(segs)
+        self.listctx[i] = ctx if ctx is not None else (st.loops, st.guards)
+        return ("LIST", i)
+
+    def newloop(self, src, node):
+        lp = _Loop(next(self._ids), src, node)
+        self.loops[lp.id] = lp
+        return lp
+
+    def elem_of(self, seq, lp):
+        k = seq[0] if isinstance(seq, tuple) and seq else None
+        if k == "DESCR":
+            return ("ENTRY", seq[1], ("K", lp.id))
+        if k in ("NAMES", "MAP", "FIELDS"):
+            return ("NAME", seq[1], ("K", lp.id))
+        if k == "RANGE":
+            return ("IDX", seq[1], lp.id)
+        if k == "RANGEOF":
+            return ("IDXOF", lp.id)
+        if k == "ZIP":
+            return ("TUPLE",) + tuple(self.elem_of(x, lp) for x in seq[1:])
+        if k == "ENUM":
+            inner = seq[1]
+            idx = ("IDX", inner[1], lp.id) if isinstance(inner, tuple) and inner[0] in ("DESCR", "NAMES") else ("IDXOF", lp.id)
+            return ("TUPLE", idx, self.elem_of(inner, lp))
+        return ("ELEM", seq, lp.id)
+
+    def segments(self, t, node=None):
+        """the content of a sequence value as segments"""
+        if isinstance(t, tuple) and t and t[0] == "LIST":
+            return list(self.heap.get(t[1], []))
+        lp = self.newloop(t, node)
+        return [_Seg((lp,), (), self.elem_of(t, lp))]
+
+    def copy_of(self, t, st):
+        if isinstance(t, tuple) and t and t[0] == "LIST":
+            return self.newlist(st, self.heap.get(t[1], []), self.listctx.get(t[1]))
+        return t
+
+    def as_list(self, t, st):
+        if isinstance(t, tuple) and t and t[0] == "LIST":
+            return t
+        # a list that was not made here (dtype.descr builds a new list on every access): its content does not depend on where we are
+        return self.newlist(st, self.segments(t), ((), ()))
+
+    def append(self, lst, elem, st):
+        c = self.listctx[lst[1]]
+        self.heap[lst[1]].append(_Seg(_strip_prefix(st.loops, c[0]), _strip_prefix(st.guards, c[1]), elem))
+
+    def extend(self, lst, seq, st, node=None):
+        c = self.listctx[lst[1]]
+        lo, gu = _strip_prefix(st.loops, c[0]), _strip_prefix(st.guards, c[1])
+        for s in self.segments(seq, node):
+            self.heap[lst[1]].append(_Seg(lo + s.loops, gu + s.guards, s.elem))
+
+    def taint(self, lst, what):
+        self.heap[lst[1]].append(_Seg((), (), ("TAINT", what)))
+
+    # -- statements --------------------------------------------------------------------------------------------------
+    def block(self, stmts, st):
+        status = set()
+        for s in stmts:
+            if self.depth == 0:
+                self.site = s
+            r = self.stmt(s, st)
+            status |= (r - {N_})
+            if N_ not in r:
+                return status
+        return status | {N_}
+
+    def stmt(self, s, st):
+        if isinstance(s, ast.Expr):
+            if not isinstance(s.value, ast.Constant):
+                self.ev(s.value, st)
+            return {N_}
+        if isinstance(s, ast.Assign):
+            v = self.ev(s.value, st)
+            for t in s.targets:
+                self.assign(t, v, st, s)
+            return {N_}
+        if isinstance(s, ast.AnnAssign):
+            if s.value is not None:
+                self.assign(s.target, self.ev(s.value, st), st, s)
+            return {N_}
+        if isinstance(s, ast.AugAssign):
+            return self.augassign(s, st)
+        if isinstance(s, ast.If):
+            return self.if_(s, st)
+        if isinstance(s, ast.For):
+            return self.for_(s, st)
+        if isinstance(s, ast.Return):
+            v = self.ev(s.value, st) if s.value is not None else ("C", None)
+            if self.depth == 0:
+                self.event("return", st, s, value=v, implicit=False)
+            else:
+                self.frames[-1].append((v, st.guards))
+            return {RET}
+        if isinstance(s, ast.Raise):
+            self.event("raise", st, s)
+            return {RAISE}
+        if isinstance(s, ast.Continue):
+            return {CONT}
+        if isinstance(s, ast.Break):
+            return {BRK}
+        if isinstance(s, (ast.Pass, ast.Import, ast.ImportFrom, ast.Global, ast.Nonlocal, ast.Assert)):
+            return {N_}
+        if isinstance(s, ast.Delete):
+            for t in s.targets:
+                if isinstance(t, ast.Subscript):
+                    b = self.ev(t.value, st)
+                    if b[0] == "LIST":
+                        self.taint(b, "del")
+                    else:
+                        self.event("store", st, s, base=b, key=("X", "del"), value=("X", "del"))
+            return {N_}
+        if isinstance(s, ast.With):
+            for it in s.items:
+                v = self.ev(it.context_expr, st)
+                if it.optional_vars is not None:
+                    self.assign(it.optional_vars, v, st, s)
+            return self.block(s.body, st)
+        if isinstance(s, (ast.FunctionDef, ast.AsyncFunctionDef)):
+            st.vars[s.name] = ("FUNC", id(s))
+            self._funcs[id(s)] = (s, st)
+            return {N_}
+        raise _Unrec("%s statement at line %s" % (type(s).__name__, getattr(s, "lineno", "?")))
+
+    def assign(self, t, v, st, node):
+        if isinstance(t, ast.Name):
+            st.vars[t.id] = v
+        elif isinstance(t, (ast.Tuple, ast.List)):
+            if v[0] == "WHERE" and len(t.elts) == 1:
+                self.assign(t.elts[0], ("WIDX", v[1], v[2]), st, node)
+            elif v[0] == "TUPLE" and len(v) - 1 == len(t.elts):
+                for e, x in zip(t.elts, v[1:]):
+                    self.assign(e, x, st, node)
+            else:
+                for i, e in enumerate(t.elts):
+                    self.assign(e, ("ITEM", v, ("C", i)), st, node)
+        elif isinstance(t, ast.Subscript):
+            base = self.ev(t.value, st)
+            key = ("X", "slice:" + norm(t.slice)) if isinstance(t.slice, ast.Slice) else self.ev(t.slice, st)
+            if base[0] == "LIST":
+                self.taint(base, "item assignment")
+            self.event("store", st, node, base=base, key=key, value=v)
+        elif isinstance(t, ast.Attribute):
+            self.event("attrstore", st, node, base=self.ev(t.value, st), attr=t.attr, value=v)
+        elif isinstance(t, ast.Starred):
+            self.assign(t.value, ("X", "starred"), st, node)
+
+    def augassign(self, s, st):
+        v = self.ev(s.value, st)
+        if isinstance(s.target, ast.Name):
+            cur = st.lookup(s.target.id) or ("G", s.target.id)
+            if isinstance(s.op, ast.Add) and cur[0] in ("LIST", "DESCR", "NAMES"):
+                lst = self.as_list(cur, st)
+                st.vars[s.target.id] = lst
+                self.extend(lst, v, st, s)
+                return {N_}
+            self.event("incr", st, s, name=s.target.id, op=type(s.op).__name__, value=v, before=cur)
+            # a local that is only ever counted up/down stays one symbolic counter
+            st.vars[s.target.id] = ("CNT", s.target.id) if isinstance(s.op, (ast.Add, ast.Sub)) else ("X", "updated:%s@%s" % (s.target.id, s.lineno))
+        elif isinstance(s.target, ast.Subscript):
+            self.event("store", st, s, base=self.ev(s.target.value, st), key=("X", "aug:" + norm(s.target.slice)), value=v)
+        return {N_}
+
+    # -- if ------------------------------------------------------------------------------------------------------------
+    def _quantified(self, test):
+        neg = False
+        while isinstance(test, ast.UnaryOp) and isinstance(test.op, ast.Not):
+            neg, test = not neg, test.operand
+        if isinstance(test, ast.Call) and isinstance(test.func, ast.Name) and test.func.id in ("any", "all") and len(test.args) == 1 \
+                and isinstance(test.args[0], (ast.GeneratorExp, ast.ListComp)) and not test.keywords:
+            return test.func.id, neg, test.args[0]
+        return None
+
+    def if_(self, s, st):
+        q = self._quantified(s.test)
+        if q is not None:
+            name, neg, comp = q
+            ex_pol = (name == "any") != neg      # the test is true exactly when a witness exists
+            cpol = name == "any"                 # a witness makes the element expression cpol
+            ex_arm, other = (s.body, s.orelse) if ex_pol else (s.orelse, s.body)
+            if ex_arm and isinstance(ex_arm[-1], (ast.Raise, ast.Return)):
+                h0 = self._heapcopy()
+
+                def leaf(stc):
+                    gT, gF = self.cond(comp.elt, stc)
+                    gs = gT if cpol else gF
+                    return self.block(ex_arm, stc.child(guards=stc.guards + tuple(_Guard(c, p, s) for c, p in gs)))
+                sX = self.comp_iter(comp.generators, st.child(own_vars=True), leaf)
+                self.heap = h0
+                g = _Guard(("EXISTS", norm(comp)), False, s, "reject" if sX <= {RAISE} else "path")
+                st.guards = st.guards + (g,)
+                sO = self.block(other, st) if other else {N_}
+                return (sX - {N_}) | sO
+        neg, t = False, s.test
+        while isinstance(t, ast.UnaryOp) and isinstance(t.op, ast.Not):
+            neg, t = not neg, t.operand
+        if isinstance(t, ast.Call):
+            v = self.ev(t, st)
+            if v[0] == "RETS" and all(alt[0][0] == "C" for alt in v[1:]):
+                return self._if_alternatives(s, st, v, neg)
+            self._pre[id(t)] = v
+        gT, gF = self.cond(s.test, st)
+        gT = tuple(_Guard(c, p, s) for c, p in gT)
+        gF = tuple(_Guard(c, p, s) for c, p in gF)
+        h0 = self._heapcopy()
+        v0 = dict(st.vars)
+        stT = st.child(guards=st.guards + gT, own_vars=True)
+        sT = self.block(s.body, stT)
+        hT = self.heap
+        self.heap = {k: list(v) for k, v in h0.items()}
+        stF = st.child(guards=st.guards + gF, own_vars=True)
+        sF = self.block(s.orelse, stF) if s.orelse else {N_}
+        hF = self.heap
+
+        def kind_from(other_status):
+            if N_ in other_status:
+                return "filter"
+            if other_status <= {RAISE}:
+                return "reject"
+            if RET in other_status:
+                return "path"
+            if BRK in other_status:
+                return "break"
+            return "filter"
+        for g in gT:
+            g.kind = kind_from(sF)
+        for g in gF:
+            g.kind = kind_from(sT)
+        if N_ in sT and N_ in sF:
+            self.heap = self._heapmerge(h0, hT, hF)
+            merged = {}
+            for k in set(stT.vars) | set(stF.vars):
+                a, b = stT.vars.get(k), stF.vars.get(k)
+                if a == b:
+                    merged[k] = a
+                elif ("CNT", k) in (a, b):
+                    merged[k] = ("CNT", k)
+                else:
+                    merged[k] = self._norm_merge(gT, a, b, v0.get(k)) or ("PHI", a if a is not None else ("X", "unbound"), b if b is not None else ("X", "unbound"))
+            st.vars.clear()
+            st.vars.update(merged)
+            extra = ()
+            both = (sT | sF) - {N_, RAISE}
+            # guards the arms pushed for their own remainder (maybe-return, maybe-continue) survive the merge as pseudo guards
+            if RET in both:
+                extra += (_Guard(("MAYRET", s.lineno), True, s, "path"),)
+            if BRK in both:
+                extra += (_Guard(("MAYBREAK", s.lineno), True, s, "break"),)
+            if CONT in both:
+                extra += (_Guard(("MAYSKIP", s.lineno), True, s, "filter"),)
+            st.guards = st.guards + extra
+        elif N_ in sT:
+            self.heap = hT
+            st.vars.clear()
+            st.vars.update(stT.vars)
+            st.guards = stT.guards
+        elif N_ in sF:
+            self.heap = hF
+            st.vars.clear()
+            st.vars.update(stF.vars)
+            st.guards = stF.guards
+        else:
+            self.heap = self._heapmerge(h0, hT, hF)
+        return sT | sF
+
+    def _if_alternatives(self, s, st, v, neg):
+        """the test is a call of a helper that returns constants: each way the helper returns selects an arm, under the helper's own tests"""
+        results = []
+        for val, gs in v[1:]:
+            arm = s.body if bool(val[1]) != neg else s.orelse
+            stA = st.child(guards=st.guards + tuple(_Guard(g.cond, g.pol, s, "filter") for g in gs), own_vars=True)
+            results.append((self.block(arm, stA) if arm else {N_}, stA))
+        status = set()
+        for r, _ in results:
+            status |= r
+        normal = [a for r, a in results if N_ in r]
+        if normal:
+            merged = {}
+            for k in set().union(*[set(a.vars) for a in normal]):
+                vs = []
+                for a in normal:
+                    x = a.vars.get(k)
+                    if x not in vs:
+                        vs.append(x)
+                merged[k] = vs[0] if len(vs) == 1 else (("CNT", k) if ("CNT", k) in vs else ("PHI",) + tuple(x if x is not None else ("X", "unbound") for x in vs))
+            st.vars.clear()
+            st.vars.update(merged)
+            if RET in status:
+                st.guards = st.guards + (_Guard(("MAYRET", s.lineno), True, s, "path"),)
+        return status
+
+    def _heapcopy(self):
+        return {k: list(v) for k, v in self.heap.items()}
+
+    def _heapmerge(self, h0, hT, hF):
+        out = {}
+        for k in set(hT) | set(hF):
+            if k not in hF:
+                out[k] = hT[k]
+            elif k not in hT:
+                out[k] = hF[k]
+            else:
+                n = len(h0.get(k, []))
+                out[k] = list(hT[k][:n]) + list(hT[k][n:]) + list(hF[k][n:])
+        return out
+
+    def _norm_merge(self, gT, a, b, before):
+        """`if not isinstance(x, (tuple, list, ndarray)): x = [x]` (or the mirrored / positive forms): x normalised to a sequence"""
+        if len(gT) == 1 and gT[0].cond[0] == "ISNONE" and a is not None and b is not None:
+            # `if x is not None: x = <normalised x>`: None stays None, anything else is normalised
+            subj = gT[0].cond[1]
+            none_arm, other = (a, b) if gT[0].pol else (b, a)
+            if none_arm == subj and before == subj and other[0] in ("NORM", "LIST"):
+                return ("OPT", subj, other)
+            # `if x is None: x = <default>` (else: x normalised or left alone)
+            if before == subj and none_arm != subj and (other == subj or other[0] == "NORM" and other[1] == subj):
+                return ("DFLT", subj, none_arm, other)
+            return None
+        if len(gT) != 1 or gT[0].cond[0] != "ISINST" or a is None or b is None:
+            return None
+        subj, types = gT[0].cond[1], gT[0].cond[2]
+        inst, noninst = (a, b) if gT[0].pol else (b, a)
+
+        def wrapped(v):
+            if v[0] != "LIST":
+                return False
+            segs = self.heap.get(v[1], [])
+            return len(segs) == 1 and not segs[0].loops and segs[0].elem == subj
+        if wrapped(noninst) and inst == subj:
+            return ("NORM", subj, "unless", types)
+        if wrapped(inst) and noninst == subj:
+            return ("NORM", subj, "when", types)
+        return None
+
+    # -- for -----------------------------------------------------------------------------------------------------------
+    def iterate(self, it, target, st, body, node):
+        self.use(it)
+        status = set()
+        if it[0] == "LIST":
+            segs = self.segments(it)
+            if any(s.elem[0] == "TAINT" for s in segs):
+                segs = None
+        else:
+            segs = None
+        if segs is None:
+            lp = self.newloop(it, node)
+            segs = [_Seg((lp,), (), self.elem_of(it, lp))]
+        mine = []
+        for sg in segs:
+            st2 = st.child(loops=st.loops + sg.loops, guards=st.guards + sg.guards)
+            self.bind(target, sg.elem, st2)
+            mine.extend(sg.loops)
+            status |= body(st2)
+        if BRK in status:
+            for lp in mine:
+                lp.broken = True
+        return status
+
+    def bind(self, target, v, st):
+        self.assign(target, v, st, target)
+
+    def for_(self, s, st):
+        it = self.ev(s.iter, st)
+        assigned = set()
+        for x in ast.walk(s):
+            if isinstance(x, ast.Name) and isinstance(x.ctx, ast.Store):
+                assigned.add(x.id)
+        r = self.iterate(it, s.target, st, lambda st2: self.block(s.body, st2), s)
+        for k in assigned:
+            v = st.vars.get(k)
+            if v is not None and v[0] not in ("LIST", "ALLOC", "FUNC", "CNT"):
+                st.vars[k] = ("X", "after-loop:%s@%s" % (k, s.lineno))
+        out = {N_}
+        if RET in r:
+            out.add(RET)
+            st.guards = st.guards + (_Guard(("MAYRET", s.lineno), True, s, "path"),)
+        if RAISE in r:
+            out.add(RAISE)
+        if s.orelse:
+            r2 = self.block(s.orelse, st)
+            out = (out - {N_}) | r2 if N_ not in r2 else out | r2
+        return out
+
+    def comp_iter(self, gens, st, leaf, i=0):
+        if i == len(gens):
+            return leaf(st)
+        g = gens[i]
+        it = self.ev(g.iter, st)
+
+        def body(st2):
+            gs = ()
+            for c in g.ifs:
+                gT, _ = self.cond(c, st2)
+                gs += tuple(_Guard(cc, p, c) for cc, p in gT)
+            return self.comp_iter(gens, st2.child(guards=st2.guards + gs), leaf, i + 1)
+        return self.iterate(it, g.target, st, body, g)
+
+    # -- expressions ---------------------------------------------------------------------------------------------------
+    def ev(self, e, st):
+        self.cur = st
+        if e is None:
+            return ("C", None)
+        if isinstance(e, ast.Constant):
+            return ("C", e.value)
+        if isinstance(e, ast.Name):
+            v = st.lookup(e.id)
+            if v is not None and v[0] == "OPT" and any(g.cond == ("ISNONE", v[1]) and not g.pol for g in st.guards):
+                return v[2]
+            return v if v is not None else ("G", e.id)
+        if isinstance(e, ast.Attribute):
+            return self.attr(self.ev(e.value, st), e.attr)
+        if isinstance(e, ast.Subscript):
+            return self.sub(self.ev(e.value, st), e.slice, st)
+        if isinstance(e, ast.Call):
+            if id(e) in self._pre:
+                return self._pre.pop(id(e))
+            return self.call(e, st)
+        if isinstance(e, (ast.List, ast.Tuple)):
+            elems = [self.ev(x, st) for x in e.elts]
+            if isinstance(e, ast.Tuple):
+                return ("TUPLE",) + tuple(elems)
+            return self.newlist(st, [_Seg((), (), x) for x in elems])
+        if isinstance(e, (ast.ListComp, ast.GeneratorExp, ast.SetComp)):
+            lst = self.newlist(st)
+
+            def leaf(stc):
+                self.append(lst, self.ev(e.elt, stc), stc)
+                return {N_}
+            self.comp_iter(e.generators, st.child(own_vars=True), leaf)
+            return lst
+        if isinstance(e, ast.Compare) and len(e.ops) == 1:
+            a, b = self.ev(e.left, st), self.ev(e.comparators[0], st)
+            if isinstance(e.ops[0], ast.Eq):
+                for x, y in ((a, b), (b, a)):
+                    if x[0] == "NAMES":
+                        return ("NAMEEQ", x[1], y)
+            c, p = self.cmp(e.ops[0], a, b)
+            return ("COND", c, p)
+        if isinstance(e, ast.BinOp):
+            a, b = self.ev(e.left, st), self.ev(e.right, st)
+            if isinstance(e.op, ast.Add) and (a[0] in ("LIST", "DESCR", "NAMES") or b[0] in ("LIST", "DESCR", "NAMES")):
+                out = self.newlist(st)
+                self.extend(out, a, st, e)
+                self.extend(out, b, st, e)
+                return out
+            return ("BIN", type(e.op).__name__, a, b)
+        if isinstance(e, ast.UnaryOp):
+            return ("UN", type(e.op).__name__, self.ev(e.operand, st))
+        if isinstance(e, ast.IfExp):
+            gT, gF = self.cond(e.test, st)
+            gT, gF = tuple(_Guard(c, p, e) for c, p in gT), tuple(_Guard(c, p, e) for c, p in gF)
+            a = self.ev(e.body, st.child(guards=st.guards + gT))
+            b = self.ev(e.orelse, st.child(guards=st.guards + gF))
+            self.cur = st
+            if a == b:
+                return a
+            return self._norm_merge(gT, a, b, None) or ("PHI", a, b)
+        if isinstance(e, ast.BoolOp):
+            return ("BOOL", type(e.op).__name__) + tuple(self.ev(x, st) for x in e.values)
+        if isinstance(e, ast.Starred):
+            return ("X", "starred")
+        if isinstance(e, ast.NamedExpr):
+            v = self.ev(e.value, st)
+            st.vars[e.target.id] = v
+            return v
+        return ("X", norm(e))
+
+    def attr(self, b, a):
+        if b[0] == "G":
+            return ("G", b[1] + "." + a)
+        if a == "dtype":
+            return ("DT", b)
+        if b[0] in ("DT", "NPDT"):
+            if a == "descr":
+                return ("DESCR", b)
+            if a == "names":
+                return ("NAMES", b)
+            if a == "fields":
+                return ("FIELDS", b)
+        if a == "shape":
+            return ("SHAPE", b)
+        if a == "size":
+            if b[0] in ("NAMES", "DESCR"):
+                return ("NF", b[1])
+            if b[0] == "WIDX":
+                return ("WSIZE", b[1], b[2])
+            return ("SIZE", b)
+        return ("ATTR", b, a)
+
+    def sub(self, b, sl, st):
+        if isinstance(sl, ast.Slice):
+            if sl.lower is None and sl.upper is None and sl.step is None:
+                return self.copy_of(b, st)
+            return ("SLICE", b, norm(sl))
+        k = self.ev(sl, st)
+        h = b[0]
+        if k[0] == "IDXOF" and h not in ("DESCR", "NAMES", "MAP", "LIST"):
+            return ("ELEM", b, k[1])          # the element at the position of that loop (sequences walked in step)
+        if h == "DESCR":
+            if k[0] == "IDX" and k[1] == b[1]:
+                return ("ENTRY", b[1], ("K", k[2]))
+            if k[0] == "FIRST" and k[1][0] == "WIDX" and k[1][1] == b[1]:
+                return ("ENTRY", b[1], ("N", k[1][2]))
+            if k[0] == "NIDX" and k[1] == b[1]:
+                return ("ENTRY", b[1], ("N", k[2]))
+        elif h == "NAMES":
+            if k[0] == "IDX" and k[1] == b[1]:
+                return ("NAME", b[1], ("K", k[2]))
+        elif h == "MAP":
+            if k[0] == "NAME" and k[1] == b[1]:
+                return ("ENTRY", b[1], k[2])
+            return ("ENTRY", b[1], ("N", k))
+        elif h == "WHERE":
+            if k == ("C", 0):
+                return ("WIDX", b[1], b[2])
+        elif h == "WIDX":
+            if k == ("C", 0):
+                return ("FIRST", b)
+        elif h == "ENTRY":
+            if k == ("C", 0):
+                return ("NAME", b[1], b[2]) if b[2][0] == "K" else b[2][1]
+        elif h == "TUPLE":
+            if k[0] == "C" and isinstance(k[1], int) and -len(b) < k[1] < len(b) - 1:
+                return b[1:][k[1]]
+        return ("ITEM", b, k)
+
+    # -- conditions ----------------------------------------------------------------------------------------------------
+    def cond(self, t, st):
+        """(conjuncts that hold in the true arm, conjuncts that hold in the false arm) as (condition term, polarity)"""
+        if isinstance(t, ast.UnaryOp) and isinstance(t.op, ast.Not):
+            a, b = self.cond(t.operand, st)
+            return b, a
+        if isinstance(t, ast.BoolOp):
+            parts = [self.cond(v, st) for v in t.values]
+            if isinstance(t.op, ast.And):
+                return [c for p in parts for c in p[0]], [(("NOTALL", norm(t)), True)]
+            return [(("SOME", norm(t)), True)], [c for p in parts for c in p[1]]
+        if isinstance(t, ast.Compare) and len(t.ops) == 1:
+            c, p = self.cmp(t.ops[0], self.ev(t.left, st), self.ev(t.comparators[0], st))
+            return [(c, p)], [(c, not p)]
+        v = self.ev(t, st)
+        if v[0] == "COND":
+            return [(v[1], v[2])], [(v[1], not v[2])]
+        if v[0] == "ISINST":
+            return [(v, True)], [(v, False)]
+        c, p = self.truth(v)
+        return [(c, p)], [(c, not p)]
+
+    def truth(self, v):
+        if v[0] in ("LEN",):
+            return ("TRUE", v[1]), True
+        if v[0] == "WSIZE":
+            return ("IN", v[2], ("NAMES", v[1])), True
+        if v[0] == "UN" and v[1] == "Not":
+            c, p = self.truth(v[2])
+            return c, not p
+        return ("TRUE", v), True
+
+    def cmp(self, op, a, b):
+        if isinstance(op, (ast.In, ast.NotIn)):
+            self.use(b)
+            return ("IN", a, _members(b)), isinstance(op, ast.In)
+        if isinstance(op, (ast.Is, ast.IsNot)):
+            if b == ("C", None) or a == ("C", None):
+                x = a if b == ("C", None) else b
+                if x[0] == "OPT":
+                    x = x[1]
+                return ("ISNONE", x), isinstance(op, ast.Is)
+            return ("IS", a, b), isinstance(op, ast.Is)
+        # comparisons of a count with zero: emptiness / membership in disguise
+        for x, y, o in ((a, b, op), (b, a, _MIRROR.get(type(op), type(op))())):
+            if y[0] == "C" and isinstance(y[1], int) and not isinstance(y[1], bool):
+                zero = None      # True: "x is zero", False: "x is not zero"
+                if y[1] == 0 and isinstance(o, ast.Eq) or y[1] == 0 and isinstance(o, ast.LtE) or y[1] == 1 and isinstance(o, ast.Lt):
+                    zero = True
+                elif y[1] == 0 and isinstance(o, (ast.NotEq, ast.Gt)) or y[1] == 1 and isinstance(o, ast.GtE):
+                    zero = False
+                if zero is not None:
+                    if x[0] == "MCALL" and x[1] == "count" and len(x[3]) == 1:
+                        self.use(x[2])
+                        return ("IN", x[3][0], _members(x[2])), not zero
+                    if x[0] == "WSIZE" or (x[0] == "LEN" and x[1][0] == "WIDX"):
+                        w = x if x[0] == "WSIZE" else x[1]
+                        return ("IN", w[2], ("NAMES", w[1])), not zero
+                    if x[0] == "LEN":
+                        return ("TRUE", x[1]), not zero
+                    if x[0] in ("SIZE", "NF") or (x[0] == "CALL" and x[1] == "count_nonzero") or (x[0] == "MCALL" and x[1] == "sum"):
+                        return ("TRUE", x), not zero
+        if isinstance(op, (ast.Eq, ast.NotEq)):
+            x, y = sorted((a, b), key=repr)
+            return ("EQ", x, y), isinstance(op, ast.Eq)
+        return ("CMP", type(op).__name__, a, b), True
+
+    # -- calls ---------------------------------------------------------------------------------------------------------
+    def call(self, c, st):
+        f = c.func
+        nm = call_name(c)
+        # method call on a local value
+        if isinstance(f, ast.Attribute):
+            recv = self.ev(f.value, st)
+            if recv[0] != "G":
+                return self.method(c, recv, nm, st)
+        args = [self.ev(a, st) for a in c.args if not isinstance(a, ast.Starred)]
+        kws = {k.arg: self.ev(k.value, st) for k in c.keywords if k.arg is not None}
+        if any(isinstance(a, ast.Starred) for a in c.args) or any(k.arg is None for k in c.keywords):
+            return ("CALL", nm or "?", tuple(args) + (("X", "star-args"),))
+        if isinstance(f, ast.Name):
+            fv = st.lookup(f.id)
+            if fv is not None and fv[0] == "FUNC":
+                node, dst = self._funcs[fv[1]]
+                return self.inline(node, st.module, args, kws, st, closure=dst, qual="<local>." + node.name)
+            if fv is not None:
+                return ("CALL", "?", tuple(args))
+        d = dotted_name(f) or ""
+        full = self.repo.resolve_name(st.module, d) if d else ""
+        is_np = full.startswith("numpy") or d.split(".")[0] in ("np", "numpy")
+        a0 = args[0] if args else None
+        if nm == "isinstance" and len(c.args) == 2:
+            ty = c.args[1]
+            names = [norm(x).split(".")[-1] for x in (ty.elts if isinstance(ty, (ast.Tuple, ast.List)) else [ty])]
+            return ("ISINST", a0, frozenset(names))
+        if nm in ("list", "tuple", "set", "frozenset") and isinstance(f, ast.Name):
+            if a0 is None:
+                return self.newlist(st)
+            self.use(a0)
+            return self.copy_of(a0, st)
+        if nm in ("deepcopy", "copy") and a0 is not None and len(args) == 1:
+            return self.copy_of(a0, st)
+        if nm == "len" and a0 is not None:
+            return ("NF", a0[1]) if a0[0] in ("NAMES", "DESCR", "MAP", "FIELDS") else ("LEN", a0)
+        if nm == "zip" and len(args) == 2:
+            return ("ZIP", args[0], args[1])
+        if nm == "enumerate" and len(args) == 1:
+            return ("ENUM", a0)
+        if nm == "dict" and len(args) == 1 and a0[0] == "ZIP" and a0[1][0] == "NAMES" and a0[2] == ("DESCR", a0[1][1]):
+            return ("MAP", a0[1][1])
+        if nm in ("range", "xrange") and len(args) == 1:
+            if a0[0] == "NF":
+                return ("RANGE", a0[1])
+            return ("RANGEOF", a0[1]) if a0[0] == "LEN" else ("CALL", "range", (a0,))
+        if nm == "dtype" and is_np and a0 is not None:
+            return a0 if a0[0] in ("DT", "NPDT") else ("NPDT", a0)
+        if nm == "shape" and is_np and a0 is not None:
+            return ("SHAPE", a0)
+        if nm == "size" and is_np and a0 is not None:
+            return ("SIZE", a0)
+        if nm in ("where", "nonzero", "flatnonzero") and len(args) == 1 and a0[0] == "NAMEEQ":
+            return ("WIDX", a0[1], a0[2]) if nm == "flatnonzero" else ("WHERE", a0[1], a0[2])
+        if nm in ("array", "asarray", "asanyarray", "atleast_1d") and a0 is not None and (is_np or isinstance(f, ast.Name)):
+            if a0[0] in ("NAMES", "DESCR", "LIST") and "dtype" not in kws and len(args) == 1:
+                self.use(a0)
+                return self.copy_of(a0, st)
+            if nm == "atleast_1d" or kws.get("ndmin") == ("C", 1):
+                return ("NORM", a0, "atleast_1d", frozenset())
+            return ("NORM", a0, "array", frozenset())
+        if nm in ALLOCATORS and (is_np or isinstance(f, ast.Name)) and ("dtype" in kws or len(args) > 1):
+            like = nm.endswith("_like")
+            shp = kws.get("shape", a0) if not like else ("SHAPE", a0)
+            dt = kws.get("dtype", args[1] if len(args) > 1 else None)
+            if dt is not None and dt[0] == "NPDT" and dt[1][0] in ("LIST", "DESCR"):
+                dt = dt[1]
+            self.nalloc += 1
+            tag = ("ALLOC", self.nalloc)
+            self.event("alloc", st, c, tag=tag, fn=nm, shape=shp, dtype=dt, segs=self.segments(dt, c) if dt is not None and dt[0] in ("LIST", "DESCR") else None)
+            return tag
+        callee = self.repo.funcs.get(full) if full else None
+        if callee is not None and callee.cls is None:
+            if callee.name in COPIERS and callee is not self.root:
+                bound = self._bindargs(callee.node, args, kws, st, callee.module)
+                if bound is not None:
+                    self.event(callee.name, st, c, **{"a_" + k: v for k, v in bound.items()})
+                    return ("C", None)
+            elif full not in self.stack and self.depth < 3 and callee is not self.root:
+                return self.inline(callee.node, callee.module, args, kws, st, qual=full)
+        return ("CALL", nm or "?", tuple(args) + tuple(v for _, v in sorted(kws.items())))
+
+    def method(self, c, recv, nm, st):
+        args = [self.ev(a, st) for a in c.args if not isinstance(a, ast.Starred)]
+        a0 = args[0] if args else None
+        if recv[0] in ("LIST", "DESCR", "NAMES") and nm in ("append", "extend", "insert", "pop", "remove", "sort", "reverse", "clear", "add", "update", "discard"):
+            lst = recv
+            if recv[0] != "LIST":
+                lst = self.as_list(recv, st)
+                if isinstance(c.func.value, ast.Name):
+                    st.vars[c.func.value.id] = lst
+            if nm in ("append", "add") and len(args) == 1:
+                self.append(lst, a0, st)
+            elif nm in ("extend", "update") and len(args) == 1:
+                self.extend(lst, a0, st, c)
+            else:
+                self.taint(lst, nm)
+            return ("C", None)
+        if nm == "copy" and not args:
+            return self.copy_of(recv, st)
+        if nm == "count" and len(args) == 1:
+            return ("MCALL", "count", recv, (a0,))
+        if nm == "index" and len(args) == 1 and recv[0] == "NAMES":
+            return ("NIDX", recv[1], a0)
+        if recv[0] == "MAP":
+            if nm == "items" and not args:
+                return ("ZIP", ("NAMES", recv[1]), ("DESCR", recv[1]))
+            if nm == "keys" and not args:
+                return ("NAMES", recv[1])
+            if nm == "values" and not args:
+                return ("DESCR", recv[1])
+        if recv[0] == "FIELDS" and nm == "keys" and not args:
+            return ("NAMES", recv[1])
+        if nm == "tolist" and recv[0] in ("NAMES", "DESCR", "LIST") and not args:
+            return self.copy_of(recv, st)
+        if nm == "nonzero" and recv[0] == "NAMEEQ" and not args:
+            return ("WHERE", recv[1], recv[2])
+        return ("MCALL", nm or "?", recv, tuple(args))
+
+    def _bindargs(self, fn, args, kws, st, module):
+        a = fn.args
+        if a.vararg or a.kwarg:
+            return None
+        params = [x.arg for x in a.posonlyargs + a.args]
+        if len(args) > len(params):
+            return None
+        bound = dict(zip(params, args))
+        for k, v in kws.items():
+            if k not in params + [x.arg for x in a.kwonlyargs] or k in bound:
+                return None
+            bound[k] = v
+        dst = _St({}, module)
+        for p, dflt in zip(params[len(params) - len(a.defaults):], a.defaults):
+            if p not in bound:
+                bound[p] = self.ev(dflt, dst)
+        for p, dflt in zip(a.kwonlyargs, a.kw_defaults):
+            if p.arg not in bound and dflt is not None:
+                bound[p.arg] = self.ev(dflt, dst)
+        if any(p not in bound for p in params):
+            return None
+        return bound
+
+    def inline(self, fn, module, args, kws, st, closure=None, qual=""):
+        """execute a package helper (or a local def) on the caller's terms: an extracted helper is the code it replaced"""
+        bound = self._bindargs(fn, args, kws, st, module)
+        if bound is None:
+            return ("CALL", fn.name, tuple(args))
+        st2 = _St(bound, module, st.loops, st.guards, closure)
+        n0 = len(st.guards)
+        self.depth += 1
+        self.stack.append(qual)
+        self.frames.append([])
+        try:
+            status = self.block(fn.body, st2)
+        finally:
+            self.depth -= 1
+            self.stack.pop()
+            rets = self.frames.pop()
+        if N_ in status:
+            rets.append((("C", None), st2.guards))
+        # a guard clause of the helper that raises also guards what the caller does next
+        st.guards = st.guards + tuple(g for g in st2.guards[n0:] if g.kind == "reject")
+        vals = []
+        for v, _ in rets:
+            if v not in vals:
+                vals.append(v)
+        if len(vals) == 1:
+            return vals[0]
+        if not vals:
+            return ("X", "no-return")
+        return ("RETS",) + tuple((v, tuple(gs[n0:])) for v, gs in rets)
+
+
+_MIRROR = {ast.Lt: ast.Gt, ast.Gt: ast.Lt, ast.LtE: ast.GtE, ast.GtE: ast.LtE}
+
+
+# --------------------------------------------------------------------------------------------------------------------
+# reading the evaluator's result
+# --------------------------------------------------------------------------------------------------------------------
+_IT = {}
+
+
+def interp(repo, fi):
+    it = _IT.get(fi.qualname)
+    if it is None or it.root is not fi:
+        it = _IT[fi.qualname] = _Interp(repo, fi).run()
+    return it
+
+
+def _filters(guards):
+    """the guards that decide whether an element is taken (a guard whose failure raises does not skip anything)"""
+    return [g for g in guards if g.kind != "reject"]
+
+
+def _in_order_over(lp, F):
+    """the loop visits every field of dtype F exactly once, in the order of the dtype"""
+    s = lp.src
+    if lp.broken:
+        return False
+    if s[0] in ("DESCR", "NAMES", "MAP", "RANGE"):
+        return s[1] == F
+    if s[0] == "ZIP":
+        return all(x[0] in ("DESCR", "NAMES", "RANGE") and x[1] == F for x in s[1:])
+    if s[0] == "ENUM":
+        return s[1][0] in ("DESCR", "NAMES") and s[1][1] == F
+    return False
+
+
+def _whole_of(seg):
+    """dtype F when the segment is `every entry of F, unmodified, in order` (no filter), else None"""
+    if len(seg.loops) != 1 or _filters(seg.guards) or seg.elem[0] != "ENTRY":
+        return None
+    F = seg.elem[1]
+    return F if _in_order_over(seg.loops[0], F) and seg.elem[2] == ("K", seg.loops[0].id) else None
+
+
+def _where(fi, e=None):
+    return fi.where(e.site) if e is not None and e.site is not None else fi.where()
+
+
+def _tri(good, bad):
+    """True when the construct was found as required, False when it was found and contradicts, None when it was not found"""
+    return True if good else (False if bad else None)
+
+
+def _returned_allocs(it, fi, eng):
+    """(per-return effect tags, {id(return stmt): return event}, allocation events that are returned)"""
+    rets = effects.return_tags_per_return(eng, fi, {})
+    byret = {id(e.node): e for e in it.of("return") if e.node is not None}
+    allocs = {e.d["tag"]: e for e in it.of("alloc")}
+    out = []
+    for n, tags in rets:
+        e = byret.get(id(n.ast))
+        if e is not None and e.d["value"] in allocs and allocs[e.d["value"]] not in out:
+            out.append(allocs[e.d["value"]])
+    return rets, byret, out
+
+
+def _shape_verdict(shp, inputs):
+    if shp is None:
+        return None
+    if shp[0] == "SHAPE" and shp[1] in inputs:
+        return True
+    if shp[0] == "C" or any(isinstance(x, tuple) and x and x[0] in ("SIZE", "LEN", "NF") for x in _subterms(shp)):
+        return False
+    if shp[0] in ("ITEM", "SLICE") and shp[1][0] == "SHAPE":
+        return False
+    return None
+
+
+def common(chk, repo, eng, fi):
+    q = fi.qualname
+    it = interp(repo, fi)
+    combine_ = fi.name == "combine_fields"
+    if combine_:
+        arrlist = ("P", fi.params[0])
+        inputs = [("ITEM", arrlist, ("C", k)) for k in (0, -1)]
+    else:
+        inputs = [("P", fi.params[0])]
+    rets, byret, allocs = _returned_allocs(it, fi, eng)
+    fresh = [(n, byret.get(id(n.ast))) for n, tags in rets if not any(t[0] == "P" for t in tags)]
+    # (a) allocation: what is returned is one zeros(<input>.shape, dtype=<descr>) allocation
+    vals = [e.d["value"] if e is not None else None for _, e in fresh]
+    ok = None
+    if it.failed is None and fresh and all(v is not None and v[0] == "ALLOC" for v in vals):
+        ok = True
+    chk.ob("R07.alloc", q + "::single-allocation", ok, fi.where(),
+           "the result is allocated once with zeros(shape, dtype=descr)%s" % ("" if ok else " (no allocation call was found for the returned value: %s)"
+                                                                              % (it.failed or [_show(v) for v in vals if v is not None])))
+    for z in allocs:
+        shp = z.d["shape"]
+        ok = _shape_verdict(shp, inputs)
+        chk.ob("R07.alloc", q + "::shape-from-input", ok, _where(fi, z),
+               "the result's shape is the input's .shape (found `%s`): %s" % (_show(shp), "ok" if ok else
+                                                                             "a result built from .size (or anything else) is not the same shape for 0-d/2-d inputs"))
+        chk.ob("R07.alloc", q + "::zero-filled", ALLOCATORS[z.d["fn"]], _where(fi, z), "new fields start zero-filled (allocated with %s)" % z.d["fn"])
+    tags_ = [z.d["tag"] for z in allocs]
+    # (d) data copied by copy_fields(input, new) after the allocation
+    cps = it.of("copy_fields")
+    chk.ob("R07.copy", q + "::copy-call-present", _tri(len(cps) >= 1, it.failed is None), fi.where(), "data are copied with copy_fields")
+
+    def is_input(t):
+        if combine_:
+            return (t[0] == "ELEM" and (t[1] == arrlist or t[1][0] == "SLICE" and t[1][1] == arrlist)) or (t[0] == "ITEM" and t[1] == arrlist)
+        return t == inputs[0]
+    for c in cps:
+        a0, a1 = c.d.get("a_arr1"), c.d.get("a_arr2")
+        chk.ob("R07.copy", q + "::copy-roles", is_input(a0) and a1 in tags_, _where(fi, c),
+               "copy_fields(source=%s, destination=%s): source is the input, destination the newly allocated array" % (_show(a0), _show(a1)))
+    if combine_:
+        # every array of the list is a source: one loop over the list, or the first array plus a loop over the rest
+        cover = set()
+        for c in cps:
+            a0 = c.d.get("a_arr1")
+            if c.d.get("a_arr2") not in tags_ or _filters([g for g in c.guards if g not in (allocs[0].guards if allocs else ())]):
+                continue
+            if a0[0] == "ELEM" and any(lp.id == a0[2] and not lp.broken for lp in c.loops):
+                if a0[1] == arrlist:
+                    cover.add("all")
+                elif a0[1] == ("SLICE", arrlist, "1:"):
+                    cover.add("rest")
+            elif a0 == ("ITEM", arrlist, ("C", 0)) and not c.loops:
+                cover.add("first")
+        chk.ob("R07.copy", q + "::copies-every-array", "all" in cover or {"first", "rest"} <= cover, fi.where(), "copy_fields runs for every array of the list")
+    # (f) freshness of the returned value
+    for n, tags in rets:
+        p = sorted({t[1] for t in tags if t[0] == "P"})
+        chk.ob("R07.fresh", q + "::returns-new-array::" + norm(n.ast.value), not p, fi.where(n.ast),
+               "`return %s` is a new array%s" % (norm(n.ast.value), "" if not p else ": it can be (a view of) the argument %s" % p))
+    # returned value is the allocated array
+    for n, e in fresh:
+        v = e.d["value"] if e is not None else None
+        good = v is not None and v[0] == "ALLOC"
+        bad = v is not None and not good and any(x[0] == "ALLOC" for x in _subterms(v) if isinstance(x, tuple) and x) and v[0] in ("ITEM", "SLICE")
+        chk.ob("R07.fresh", q + "::returns-the-allocation", _tri(good, bad), fi.where(n.ast),
+               "the allocated array is what is returned (returned: %s)" % (_show(v) if v is not None else it.failed))
+    return it, (allocs[0] if allocs else None)
+
+
+def _raises(it):
+    return it.of("raise")
+
+
+def _g(e, pred):
+    return any(pred(g) for g in e.guards)
+
+
+def _no_field_left(it, alloc):
+    dt = alloc.d["dtype"] if alloc is not None else None
+    return any(_g(e, lambda g: g.cond == ("TRUE", dt) and not g.pol) for e in _raises(it)) if dt is not None else False
+
+
+def _missing_strict(it, fi, F, pname, strict_name="strict"):
+    """a raise reached for a requested name that is not a field of F, under `strict`"""
+    strict = ("TRUE", ("P", strict_name))
+    for e in _raises(it):
+        if not _g(e, lambda g: g.cond == strict and g.pol):
+            continue
+        for g in e.guards:
+            c = g.cond
+            if c[0] == "IN" and c[2] == ("NAMES", F) and not g.pol and c[1][0] == "ELEM" and _param_of(c[1][1]) == pname \
+                    and any(lp.id == c[1][2] for lp in e.loops):
+                return True
+            # `missing = [n for n in names if n not in fields]; if strict and missing: raise`
+            if c[0] == "TRUE" and g.pol and c[1][0] == "LIST":
+                for s in it.heap.get(c[1][1], []):
+                    for h in s.guards:
+                        if h.cond[0] == "IN" and h.cond[2] == ("NAMES", F) and not h.pol and h.cond[1] == s.elem and s.elem[0] == "ELEM" and _param_of(s.elem[1]) == pname:
+                            return True
+    return False
+
+
+def _seg_text(segs):
+    if segs is None:
+        return "not a list built from descr entries"
+    return "; ".join("for %s if %s: %s" % ([_show(lp.src) for lp in s.loops], _filters(s.guards), _show(s.elem)) for s in segs)
+
+
+def _filtered(chk, fi, it, alloc, pname, pol, key1, msg1, key2=None, msg2=None):
+    """the new descr is: for every entry of arr.dtype.descr in order, the unmodified entry, kept when (pol) its name is in <pname>"""
+    q = fi.qualname
+    F = ("DT", ("P", fi.params[0]))
+    segs = alloc.d["segs"] if alloc is not None else None
+    ok = ok2 = None
+    if segs is not None:
+        ok = ok2 = False
+        if len(segs) == 1 and len(segs[0].loops) == 1 and _in_order_over(segs[0].loops[0], F):
+            s = segs[0]
+            key = ("K", s.loops[0].id)
+            fl = _filters(s.guards)
+            if s.elem == ("ENTRY", F, key) and len(fl) == 1 and fl[0].cond[0] == "IN" and fl[0].pol == pol and _param_of(fl[0].cond[2]) == pname:
+                ok = True
+                ok2 = fl[0].cond[1] == ("NAME", F, key)
+                ok = ok and ok2
+    chk.ob("R07.order", q + "::" + key1, ok, fi.where(), msg1 + " (found: %s)" % _seg_text(segs))
+    if key2:
+        chk.ob("R07.order", q + "::" + key2, ok2, fi.where(), msg2)
+    return F
+
+
+def extract(chk, repo, fi, it, alloc):
+    q = fi.qualname
+    F = _filtered(chk, fi, it, alloc, fi.params[1], True, "original-order-filtered-by-membership",
+                  "extraction walks arr.dtype.descr in original order and keeps the unmodified entry when its name is requested",
+                  "name-is-entry[0]", "the tested name is the entry's own name")
+    chk.ob("R07.reject", q + "::missing-name-strict", _missing_strict(it, fi, F, fi.params[1]), fi.where(), "strict mode rejects a requested name that is not a field")
+    chk.ob("R07.reject", q + "::no-field-left", _no_field_left(it, alloc), fi.where(), "an empty result is rejected")
+    # every use of the names argument as a collection (iteration, membership test, conversion) sees the wrapped value
+    pname = fi.params[1]
+    seqs = {"tuple", "list", "ndarray", "set", "frozenset"}
+    # a use of the raw argument under `isinstance(<argument>, <sequence types>)` is a use of a sequence
+    # (likewise under `not isinstance(<argument>, str)`: the documented argument is a name or a sequence of names)
+    uses = [u for u, gs in it.uses if _param_of(u) == pname and
+            not (u[0] == "P" and any(g.cond[0] == "ISINST" and g.cond[1] == u and
+                                     (g.pol and set(g.cond[2]) <= seqs or not g.pol and "str" in g.cond[2] and not set(g.cond[2]) & seqs) for g in gs))]
+    need = {"tuple", "list", "ndarray"}
+    bad = [u for u in uses if u[0] == "P" or (u[0] == "NORM" and u[2] == "unless" and not need <= set(u[3]))
+           or (u[0] == "NORM" and u[2] == "when" and set(u[3]) & need)]
+    good = [u for u in uses if u[0] == "NORM" and (u[2] == "atleast_1d" or u[2] == "unless" and need <= set(u[3]) or u[2] == "when" and not set(u[3]) & need)]
+    ok = False if bad else (True if good and len(good) == len(uses) and it.failed is None else None)
+    chk.ob("R07.args", q + "::scalar-name-wrapped", ok, fi.where(),
+           "a scalar name is wrapped; tuple, list and array name lists are taken as they are%s"
+           % ("" if not bad else ": `%s` is used as a collection of names as it was passed in (a single string is then a collection of characters / substrings)" % _show(bad[0])))
+
+
+def remove(chk, repo, fi, it, alloc):
+    q = fi.qualname
+    _filtered(chk, fi, it, alloc, fi.params[1], False, "original-order-filtered-by-non-membership",
+              "removal walks the original descr in order and keeps the unmodified entry when its name is not listed",
+              "descr-is-input-descr", "the walked descr is arr.dtype.descr")
+    chk.ob("R07.reject", q + "::no-field-left", _no_field_left(it, alloc), fi.where(), "removing every field is rejected")
+    for u, _ in it.uses:
+        if _param_of(u) == fi.params[1] and u[0] == "NORM" and u[2] == "unless" and not {"tuple", "ndarray"} <= set(u[3]):
+            chk.observe("R07.args", fi.where(), "remove_fields wraps anything that is not a list: a tuple/array of names is treated as one name and "
+                        "silently removes nothing (documentation only mentions names; outside the documented quantifier)")
+            break
+
+
+def add(chk, repo, fi, it, alloc):
+    q = fi.qualname
+    arr, addp, dflt = fi.params[0], fi.params[1], fi.params[2]
+    F = ("DT", ("P", arr))
+    FA = ("NPDT", ("P", addp))
+    segs = alloc.d["segs"] if alloc is not None else None
+    whole = [_whole_of(s) for s in segs] if segs is not None else None
+    chk.ob("R07.order", q + "::starts-from-original-descr", None if whole is None else (len(whole) >= 1 and whole[0] == F), fi.where(),
+           "the new descr starts as a copy of the original descr (old fields first, original order) (found: %s)" % _seg_text(segs))
+    chk.ob("R07.order", q + "::appends-added-entries-in-order", None if whole is None else (len(whole) == 2 and whole[1] is not None and whole[1] != F), fi.where(),
+           "added entries are appended unmodified in the order given")
+    chk.ob("R07.order", q + "::added-descr-provenance", None if whole is None else (len(whole) == 2 and whole[1] == FA), fi.where(),
+           "the added descr is np.dtype(<argument>).descr")
+    rs = _raises(it)
+    ok = any(_g(e, lambda g: g.cond[0] == "IN" and g.pol and g.cond[2] == ("NAMES", F) and g.cond[1][0] == "NAME" and g.cond[1][1] == FA
+                and any(lp.id == g.cond[1][2][1] and _in_order_over(lp, FA) for lp in e.loops)) for e in rs)
+    chk.ob("R07.reject", q + "::existing-name", ok, fi.where(), "adding a name that already exists is rejected")
+
+    def lenmis(g):
+        c = g.cond
+        return c[0] == "EQ" and not g.pol and ("NF", FA) in c[1:] and any(x[0] == "LEN" and _param_of(x[1]) == dflt for x in c[1:])
+    chk.ob("R07.reject", q + "::defaults-length", any(_g(e, lenmis) for e in rs), fi.where(), "defaults of the wrong length are rejected")
+    # defaults applied by name to the new array, for the added names, only when given
+    cb = it.of("copy_fields_by_name")
+    tag = alloc.d["tag"] if alloc is not None else None
+    ok = None
+    why = "no copy_fields_by_name call was found" if not cb else ""
+    if len(cb) == 1 and tag is not None:
+        c = cb[0]
+        a_arr, a_names, a_vals = c.d.get("a_arr"), c.d.get("a_names"), c.d.get("a_vals")
+        names_ok = a_names == ("NAMES", FA) or (a_names[0] == "LIST" and [_names_of(s) for s in it.heap.get(a_names[1], [])] == [FA])
+        names_bad = a_names[0] == "NAMES" and a_names[1] != FA
+        guarded = _g(c, lambda g: g.cond == ("ISNONE", ("P", dflt)) and not g.pol)
+        # no test of the defaults argument itself decides whether the call happens: it also happens for defaults=None
+        unguarded = not any(g.cond in (("ISNONE", ("P", dflt)), ("TRUE", ("P", dflt))) for g in c.guards)
+        vals_ok = _param_of(_unwrap_vals(it, a_vals)) == dflt
+        good = a_arr == tag and names_ok and guarded and vals_ok
+        bad = (a_arr != tag and a_arr[0] in ("P", "ALLOC")) or names_bad or unguarded or (not vals_ok and a_vals[0] == "P")
+        ok = _tri(good, bad)
+        why = "copy_fields_by_name(%s, %s, %s) under %s" % (_show(a_arr), _show(a_names), _show(a_vals), list(c.guards))
+    elif len(cb) > 1:
+        why = "%d copy_fields_by_name calls" % len(cb)
+    chk.ob("R07.defaults", q + "::defaults-by-name", ok, fi.where(), "supplied defaults are written by name into the added fields of the new array, only when given (%s)" % why)
+    # the defaults reach copy_fields_by_name as given (or wrapped in a list): an array conversion would coerce mixed-type defaults to one type
+    ok = None
+    conv = ""
+    if cb:
+        vs = [c.d.get("a_vals") for c in cb]
+        convs = [x for v in vs for x in _subterms(v) if isinstance(x, tuple) and x and
+                 (x[0] == "NORM" and x[2] in ("atleast_1d", "array") or x[0] in ("CALL", "MCALL") and x[1] in ("array", "asarray", "asanyarray", "atleast_1d", "astype"))]
+        ok = _tri(all(_param_of(_unwrap_vals(it, v)) == dflt for v in vs) and not convs, bool(convs))
+        conv = ": `%s`" % _show(convs[0]) if convs else ""
+    chk.ob("R07.defaults", q + "::defaults-not-converted", ok, fi.where(),
+           "the default values are applied one by one with their own types (only wrapped in a list, never converted to an array)%s" % conv)
+    # order: copy of old data before defaults
+    cps = [c for c in it.of("copy_fields") if c.d.get("a_arr2") == tag]
+    if cb and cps:
+        first = cps[0]
+        dom = first.seq < cb[0].seq and all(g in cb[0].guards for g in _filters(first.guards))
+        chk.ob("R07.defaults", q + "::old-data-copied-first", _tri(dom, first.seq > cb[0].seq), fi.where(), "old data are copied before defaults are applied")
+
+
+def _names_of(seg):
+    """dtype F when the segment is `the name of every entry of F in order`"""
+    if len(seg.loops) != 1 or _filters(seg.guards) or seg.elem[0] != "NAME":
+        return None
+    F = seg.elem[1]
+    return F if _in_order_over(seg.loops[0], F) and seg.elem[2] == ("K", seg.loops[0].id) else None
+
+
+def _unwrap_vals(it, v):
+    """the defaults value behind a list()/[x] wrapping or a None-preserving normalisation"""
+    for _ in range(4):
+        if v is None:
+            return None
+        if v[0] == "OPT":
+            v = v[2]
+        elif v[0] == "LIST":
+            segs = it.heap.get(v[1], [])
+            if len(segs) == 1 and not segs[0].loops:
+                v = segs[0].elem
+            elif len(segs) == 1 and len(segs[0].loops) == 1 and segs[0].elem == ("ELEM", segs[0].loops[0].src, segs[0].loops[0].id):
+                v = segs[0].loops[0].src
+            else:
+                return v
+        else:
+            return v
+    return v
+
+
+def reorder(chk, repo, fi, it, alloc):
+    q = fi.qualname
+    arr, onames = fi.params[0], fi.params[1]
+    F = ("DT", ("P", arr))
+    segs = alloc.d["segs"] if alloc is not None else None
+    two = None if segs is None else len(segs) == 2
+    chk.ob("R07.order", q + "::two-passes", two, fi.where(), "two passes build the new order (found: %s)" % _seg_text(segs))
+    if not two:
+        return
+    s1, s2 = segs
+    # first pass: for each requested name, in the order given, the entry of that name
+    ok1 = same = False
+    e1 = None
+    if len(s1.loops) == 1 and not s1.loops[0].broken and _param_of(s1.loops[0].src) == onames:
+        e1 = ("ELEM", s1.loops[0].src, s1.loops[0].id)
+        fl = _filters(s1.guards)
+        same = s1.elem[0] == "ENTRY" and s1.elem[1] == F
+        ok1 = s1.elem == ("ENTRY", F, ("N", e1)) and len(fl) == 1 and fl[0].cond == ("IN", e1, ("NAMES", F)) and fl[0].pol
+    # second pass: every field in original order, unless already taken
+    ok2 = tracked = False
+    if len(s2.loops) == 1 and _in_order_over(s2.loops[0], F):
+        key = ("K", s2.loops[0].id)
+        fl = _filters(s2.guards)
+        if s2.elem == ("ENTRY", F, key) and len(fl) == 1 and fl[0].cond[0] == "IN" and not fl[0].pol and fl[0].cond[1] == ("NAME", F, key):
+            ok2 = True
+            taken = fl[0].cond[2]
+            if taken[0] == "LIST" and e1 is not None:
+                tsegs = it.heap.get(taken[1], [])
+                first = [t for t in tsegs if t.loops == s1.loops and t.elem == e1 and [(g.cond, g.pol) for g in _filters(t.guards)] == [(g.cond, g.pol) for g in _filters(s1.guards)]]
+                rest = [t for t in tsegs if t not in first and not (t.loops == s2.loops and t.elem == ("NAME", F, key))]
+                tracked = len(first) == 1 and not rest
+    chk.ob("R07.order", q + "::originals", same and ok2, fi.where(), "names and descr entries are taken from the same dtype (parallel order)")
+    chk.ob("R07.order", q + "::named-fields-first-in-given-order", ok1, fi.where(),
+           "first pass: for each requested name, in the order given, append the original entry at the position where the names match")
+    chk.ob("R07.order", q + "::rest-after-in-original-order", ok2 and tracked, fi.where(),
+           "second pass: remaining fields in original order, each appended once (not already taken)")
+    chk.ob("R07.order", q + "::taken-names-tracked", tracked, fi.where(), "the names taken in the first pass are exactly the ones the second pass leaves out")
+    chk.ob("R07.reject", q + "::missing-name-strict", _missing_strict(it, fi, F, onames), fi.where(), "strict mode rejects a requested name that is not a field")
+
+
+def combine(chk, repo, fi, it, alloc):
+    q = fi.qualname
+    arrlist = ("P", fi.params[0])
+    rs = _raises(it)
+    chk.ob("R07.reject", q + "::empty-list", any(_g(e, lambda g: g.cond == ("TRUE", arrlist) and not g.pol) for e in rs), fi.where(), "an empty list is rejected")
+
+    def mismatch(e):
+        for g in e.guards:
+            c = g.cond
+            if c[0] == "EQ" and not g.pol and c[1][0] == c[2][0] and c[1][0] in ("SHAPE", "SIZE"):
+                a, b = c[1][1], c[2][1]
+                for x, y in ((a, b), (b, a)):
+                    if x[0] == "ELEM" and x[1] == arrlist and any(lp.id == x[2] and not lp.broken for lp in e.loops) and y == ("ITEM", arrlist, ("C", 0)):
+                        return True
+        return False
+    chk.ob("R07.reject", q + "::length-mismatch", any(mismatch(e) for e in rs), fi.where(), "arrays of different length/shape are rejected")
+    segs = alloc.d["segs"] if alloc is not None else None
+    ok = None
+    if segs is not None:
+        ok = False
+        if len(segs) == 1 and len(segs[0].loops) == 2 and not _filters(segs[0].guards):
+            l1, l2 = segs[0].loops
+            el = ("ELEM", arrlist, l1.id)
+            ok = l1.src == arrlist and not l1.broken and _in_order_over(l2, ("DT", el)) and segs[0].elem == ("ENTRY", ("DT", el), ("K", l2.id))
+    chk.ob("R07.order", q + "::field-lists-concatenated-in-list-order", ok, fi.where(),
+           "the combined descr is the concatenation of each array's dtype.descr in list order (found: %s)" % _seg_text(segs))
+    chk.assume("a field name shared between combined arrays is rejected by numpy.dtype construction (duplicate field names raise ValueError)")
+
+
+def copiers(chk, repo):
+    fi = repo.func(NU + "copy_fields")
+    chk.analysed_unit(fi.qualname)
+    q = fi.qualname
+    it = interp(repo, fi)
+    src, dst = ("P", fi.params[0]), ("P", fi.params[1])
+    F1, F2 = ("DT", src), ("DT", dst)
+    stores = []
+    unknown = []
+    backwards = []      # stores into the source array
+    for e in it.of("store"):
+        b, k, v = e.d["base"], e.d["key"], e.d["value"]
+        if b == dst:
+            stores.append((e, k, v))
+        elif b[0] == "ITEM" and b[1] == dst and k[0] in ("X", "C"):
+            stores.append((e, b[2], v))         # arr2[name][...] = arr1[name]: a whole-field store through the field view
+        elif any(x == dst for x in _subterms(b)):
+            unknown.append(e)
+        elif b == src or (b[0] == "ITEM" and b[1] == src):
+            backwards.append(e)
+
+    def byname(s):
+        """arr2[n] = arr1[n] with one name n"""
+        return s[1][0] in ("NAME", "ELEM") and s[2] == ("ITEM", src, s[1])
+
+    def common_names(s):
+        """True: n ranges over the names of one array and is tested for membership in the other's (or over the intersection);
+        False: it ranges over one array's names but some are skipped or none is tested; None: the range of n is not recognised"""
+        e, k = s[0], s[1]
+        fl = [g for g in _filters(e.guards) if g.kind != "path"]
+        for Fa, Fb in ((F1, F2), (F2, F1)):
+            if k[0] == "NAME" and k[1] == Fa and k[2][0] == "K" and len(e.loops) == 1 and e.loops[0].id == k[2][1] and _in_order_over(e.loops[0], Fa):
+                ins = [g for g in fl if g.cond == ("IN", k, ("NAMES", Fb)) and g.pol]
+                return bool(ins) and len(ins) == len(fl)
+        if k[0] == "ELEM" and len(e.loops) == 1 and e.loops[0].id == k[2] and not e.loops[0].broken and not fl:
+            d = k[1]
+            both = {("NAMES", F1), ("NAMES", F2)}
+            if d[0] == "BIN" and d[1] == "BitAnd" and set(d[2:]) == both:
+                return True
+            if d[0] == "MCALL" and d[1] == "intersection" and {d[2]} | set(d[3]) == both:
+                return True
+            if d[0] == "CALL" and d[1] == "intersect1d" and set(d[2]) == both:
+                return True
+        return None
+    bn = [s for s in stores if byname(s)]
+    verdicts = [common_names(s) for s in bn]
+    ok = True if any(v is True for v in verdicts) else (False if any(v is False for v in verdicts) or backwards else None)
+    chk.ob("R07.copier", q + "::assigns-every-common-name", ok, fi.where(), "copy_fields assigns arr2[name] = arr1[name] for every name of arr1 that arr2 also has (%s)"
+           % ([(_show(s[1]), list(s[0].loops), _filters(s[0].guards)) for s in bn] or it.failed or "no such store"))
+    # every write into the destination is by field name, and the by-name loop is on every normal path (no positional shortcut)
+    other = [s for s in stores if not byname(s)]
+    chk.ob("R07.copier", q + "::destination-written-by-name-only", _tri(bool(stores) and not other and not unknown and not backwards and it.failed is None, bool(other) or bool(backwards)),
+           _where(fi, (other or stores or [(None,)])[0][0]),
+           "every store into the destination is `%s[name] = %s[name]` with one name (fields are matched by name, never by position): %s"
+           % (dst[1], src[1], [norm(s[0].node)[:60] for s in other] + ["%s (writes into the source)" % norm(e.node)[:60] for e in backwards] or "ok"))
+    full = [s[0] for s, v in zip(bn, verdicts) if v is True]
+    def nothing_to_copy(g, e):
+        """an early return taken only when the loop would not run: the list it walks is empty, or the arrays are"""
+        c = g.cond
+        if c[0] == "TRUE" and g.pol and c[1][0] == "LIST":
+            return any(tuple(sg.loops) == tuple(e.loops) for sg in it.heap.get(c[1][1], []))
+        return c[0] == "TRUE" and g.pol and c[1] in (("SIZE", src), ("SIZE", dst))
+    skipped = [g for e in full for g in e.guards if g.kind in ("path", "break") and not nothing_to_copy(g, e)]
+    chk.ob("R07.copier", q + "::by-name-loop-on-every-path", _tri(bool(full) and not skipped, bool(skipped)), fi.where(),
+           "every normal return passes through the by-name loop (no early return around it)%s" % ("" if not skipped else ": %s" % skipped[:2]))
+    sizes = lambda g: g.cond[0] == "EQ" and not g.pol and g.cond[1][0] == g.cond[2][0] and g.cond[1][0] in ("SIZE", "SHAPE") and {g.cond[1][1], g.cond[2][1]} == {src, dst}  # noqa: E731
+    chk.ob("R07.reject", q + "::size-mismatch", any(_g(e, sizes) for e in _raises(it)), fi.where(), "different sizes are rejected")
+    fi = repo.func(NU + "copy_fields_by_name")
+    chk.analysed_unit(fi.qualname)
+    q = fi.qualname
+    it = interp(repo, fi)
+    arr, pn, pv = ("P", fi.params[0]), fi.params[1], fi.params[2]
+    stores = [e for e in it.of("store") if e.d["base"] == arr]
+    good = bad = False
+    for e in stores:
+        k, v = e.d["key"], e.d["value"]
+        if k[0] == "ELEM" and v[0] == "ELEM":
+            # both are "the element of a sequence visited by a loop": the same loop over both parameters in step, or not
+            lp = [x for x in e.loops if x.id == k[2]]
+            paired = k[2] == v[2] and _param_of(k[1]) == pn and _param_of(v[1]) == pv and lp and not lp[0].broken and \
+                lp[0].src in (("ZIP", k[1], v[1]), ("RANGEOF", k[1]), ("RANGEOF", v[1]), ("ENUM", k[1]), ("ENUM", v[1]))
+            fl = _filters(e.guards)
+            if paired and all(g.cond == ("IN", k, ("NAMES", ("DT", arr))) and g.pol for g in fl):
+                good = True
+            else:
+                bad = True
+    chk.ob("R07.copier", q + "::assigns-value-by-name", _tri(good and not bad, bad), fi.where(),
+           "copy_fields_by_name pairs names with values positionally and assigns arr[name] = val (%s)"
+           % (it.failed or [(_show(e.d["key"]), _show(e.d["value"]), list(e.loops)) for e in stores]))
+
+    def lens(g):
+        c = g.cond
+        return c[0] == "EQ" and not g.pol and c[1][0] == "LEN" and c[2][0] == "LEN" and {_param_of(c[1][1]), _param_of(c[2][1])} == {pn, pv}
+    chk.ob("R07.reject", q + "::length-mismatch", any(_g(e, lens) for e in _raises(it)), fi.where(), "name/value lists of different length are rejected")
+
+
+class _Recorder:
+    """collects the rule instances another module's check would report"""
+
+    def __init__(self):
+        self.items = []
+
+    def ob(self, rule, key, ok, where="", msg="", **kw):
+        self.items.append((rule, key, ok, where, msg))
+        return bool(ok)
+
+
+def split(chk, repo, fi):
+    """the split_fields rules are checks.C02.check_split_fields (statement templates); an instance its template does not match is
+    decided on the values instead: what is returned, over which iteration, under which tests"""
+    from checks.C02 import check_split_fields
+    rec = _Recorder()
+    try:
+        check_split_fields(rec, fi, "R07.split", repo=repo)
+    except TypeError:           # the three-argument form of the shared check
+        rec = _Recorder()
+        check_split_fields(rec, fi, "R07.split")
+    sem = None
+    for rule, key, ok, where, msg in rec.items:
+        if not ok:
+            if sem is None:
+                sem = _split_values(interp(repo, fi), fi)
+            v = sem.get(key.split("::")[-1])
+            if v is True:
+                ok, msg = True, msg + " [not in the reviewed statement form; decided on the returned value: %s]" % sem["text"]
+        chk.ob(rule, key, ok, where, msg)
+
+
+def _split_values(it, fi):
+    out = {"text": it.failed or ""}
+    if it.failed is not None:
+        return out
+    data, fields = ("P", fi.params[0]), ("P", fi.params[1])
+    F = ("DT", data)
+    rets = [e for e in it.of("return") if not e.d["implicit"]]
+    views = []          # (return event, list term)
+    others = []
+    for e in rets:
+        v = e.d["value"]
+        if v[0] == "LIST":
+            views.append((e, v, None))
+        elif v[0] == "TUPLE" and len(v) == 3 and v[1][0] == "LIST":
+            views.append((e, v[1], v[2]))
+        elif v == ("TUPLE", data):
+            pass
+        else:
+            others.append(v)
+    good = bool(views)
+    srcs = []
+    for e, lst, names in views:
+        segs = it.heap.get(lst[1], [])
+        if len(segs) != 1 or len(segs[0].loops) != 1 or segs[0].loops[0].broken:
+            good = False
+            continue
+        sg = segs[0]
+        lp = sg.loops[0]
+        skip = [g for g in sg.guards if g.kind != "reject" and g not in e.guards]
+        if sg.elem != ("ITEM", data, it.elem_of(lp.src, lp)) or skip or not any(x == fields for x in _subterms(lp.src)):
+            good = False
+        if names is not None and names != lp.src:
+            good = False
+        srcs.append(lp)
+    out["text"] = "; ".join("%s -> %s" % (_show(lp.src), "data[<element>]") for lp in srcs)
+    out["one-view-per-field-in-order"] = good or None
+    out["returns-tuple-of-views"] = (good and not others) or None
+    out["default-all-fields"] = (good and all(lp.src[0] == "DFLT" and lp.src[1] == fields and lp.src[2] in (("FIELDS", F), ("NAMES", F)) for lp in srcs)) or None
+    miss = False
+    for lp in srcs:
+        el = it.elem_of(lp.src, lp)
+        miss = any(lp in r.loops and _g(r, lambda g: g.cond == ("IN", el, ("NAMES", F)) and not g.pol) for r in _raises(it))
+        if not miss:
+            break
+    out["missing-field-raises"] = (good and miss) or None
+    return out
+
+
+def compare(chk, repo, fi):
+    chk.analysed_unit(fi.qualname)
+    q = fi.qualname
+    it = interp(repo, fi)
+    a1, a2 = ("P", fi.params[0]), ("P", fi.params[1])
+    rets = [e for e in it.of("return")]
+    # the counter the verdict is taken from: `return n == 0`, or `return True` / `return False` under `n == 0` / its negation
+    counters = set()
+    ok = None
+    if it.failed is None and rets:
+        ok = True
+        for e in rets:
+            v = e.d["value"]
+            if v[0] == "COND" and v[1][0] == "EQ" and v[1][1] == ("C", 0) and v[1][2][0] == "CNT" and v[2]:
+                counters.add(v[1][2][1])
+            elif v[0] == "C" and isinstance(v[1], bool) and not e.d["implicit"]:
+                gs = [g for g in e.guards if g.cond[0] == "EQ" and g.cond[1] == ("C", 0) and g.cond[2][0] == "CNT"]
+                if len(gs) == 1 and gs[0].pol == v[1]:
+                    counters.add(gs[0].cond[2][1])
+                else:
+                    ok = False
+            else:
+                ok = False
+        ok = ok and len(counters) == 1
+    chk.ob("R07.compare", q + "::true-iff-no-failure", ok, fi.where(), "compare_arrays returns True exactly when no difference was counted (%s)"
+           % (it.failed or [(_show(e.d["value"]), [g for g in e.guards if "CNT" in repr(g.cond)]) for e in rets]))
+    incs = [e for e in it.of("incr") if e.d["name"] in counters and e.d["op"] == "Add"]
+
+    def field_of(t, arr):
+        return any(isinstance(x, tuple) and len(x) == 3 and x[0] == "ITEM" and x[1] == arr for x in _subterms(t))
+
+    def shape_diff(g):
+        c = g.cond
+        return c[0] == "EQ" and not g.pol and c[1][0] == "SHAPE" and c[2][0] == "SHAPE" and \
+            (field_of(c[1], a1) and field_of(c[2], a2) or field_of(c[1], a2) and field_of(c[2], a1))
+
+    def elem_diff(g):
+        """the test is on the number / existence of positions where the two fields differ"""
+        c = g.cond
+        if c[0] != "TRUE" or not g.pol:
+            return False
+        for x in _subterms(c[1]):
+            if isinstance(x, tuple) and len(x) == 3 and x[0] == "COND" and x[1][0] == "EQ" and x[2] is False:
+                l, r = x[1][1], x[1][2]
+                if field_of(l, a1) and field_of(r, a2) or field_of(l, a2) and field_of(r, a1):
+                    return True
+        return False
+    has_shape = any(_g(e, shape_diff) for e in incs)
+    has_elem = any(_g(e, elem_diff) for e in incs)
+    chk.ob("R07.compare", q + "::counts-shape-and-element-differences", _tri(has_shape and has_elem, it.failed is None), fi.where(),
+           "shape differences and element differences are counted (%s)" % (it.failed or [[g for g in e.guards][-1:] for e in incs]))
 
 
 def run(chk):
@@ -34,274 +1611,17 @@ def run(chk):
     chk.explanation = MANIFEST["text"]
     chk.trusted = ["numpy field assignment", "numpy.dtype duplicate-name rejection", "CPython ast"]
     chk.floor = 45
+    _IT.clear()
+    res = {}
     for name in ("extract_fields", "remove_fields", "add_fields", "reorder_fields", "combine_fields"):
         fi = repo.func(NU + name)
         chk.analysed_unit(fi.qualname)
-        common(chk, repo, eng, fi)
-    extract(chk, repo.func(NU + "extract_fields"))
-    remove(chk, repo.func(NU + "remove_fields"))
-    add(chk, repo.func(NU + "add_fields"))
-    reorder(chk, repo.func(NU + "reorder_fields"))
-    combine(chk, repo.func(NU + "combine_fields"))
+        res[name] = (fi,) + common(chk, repo, eng, fi)
+    for name, rule in (("extract_fields", extract), ("remove_fields", remove), ("add_fields", add), ("reorder_fields", reorder), ("combine_fields", combine)):
+        fi, it, alloc = res[name]
+        rule(chk, repo, fi, it, alloc)
     copiers(chk, repo)
-    from checks.C02 import check_split_fields
     sf = repo.func(NU + "split_fields")
     chk.analysed_unit(sf.qualname)
-    check_split_fields(chk, sf, "R07.split")
-    compare(chk, repo.func(NU + "compare_arrays"))
-
-
-def _assigns(fn):
-    return [x for x in walk_no_nested(fn) if isinstance(x, ast.Assign)]
-
-
-def common(chk, repo, eng, fi):
-    fn = fi.node
-    q = fi.qualname
-    env = {}
-    for a in _assigns(fn):
-        if isinstance(a.targets[0], ast.Name):
-            env.setdefault(a.targets[0].id, []).append(a.value)
-    src = "arrlist[0]" if fi.name == "combine_fields" else "arr"
-    # (a) allocation
-    zs = [x for x in walk_no_nested(fn) if isinstance(x, ast.Call) and call_name(x) in ("zeros", "empty") and
-          (kwarg(x, "dtype") is not None or len(x.args) > 1)]
-    chk.ob("R07.alloc", q + "::single-allocation", len(zs) == 1, fi.where(), "the result is allocated once with zeros(shape, dtype=descr)")
-    for z in zs:
-        shp = z.args[0]
-        prov = norm(shp)
-        if isinstance(shp, ast.Name) and shp.id in env:
-            prov = " | ".join(sorted({norm(v) for v in env[shp.id]}))
-        ok = prov == src + ".shape"
-        chk.ob("R07.alloc", q + "::shape-from-input", ok, fi.where(z),
-               "the result's shape is the input's .shape (found `%s`): %s" % (prov, "ok" if ok else
-                                                                             "a result built from .size (or anything else) is not the same shape for 0-d/2-d inputs"))
-        chk.ob("R07.alloc", q + "::zero-filled", call_name(z) == "zeros", fi.where(z), "new fields start zero-filled")
-    # (d) data copied by copy_fields(input, new) after the allocation
-    cps = [x for x in walk_no_nested(fn) if isinstance(x, ast.Call) and call_name(x) == "copy_fields"]
-    chk.ob("R07.copy", q + "::copy-call-present", len(cps) >= 1, fi.where(), "data are copied with copy_fields")
-    alloc_names = [norm(a.targets[0]) for a in _assigns(fn) if a.value in zs]
-    for c in cps:
-        a0, a1 = (norm(c.args[0]), norm(c.args[1])) if len(c.args) == 2 else (None, None)
-        src_ok = a0 == "arr"
-        chk.ob("R07.copy", q + "::copy-roles", src_ok and a1 in alloc_names, fi.where(c),
-               "copy_fields(source=%s, destination=%s): source is the input, destination the newly allocated array" % (a0, a1))
-    # every input array is copied (combine: loop over arrlist)
-    if fi.name == "combine_fields":
-        lp = [x for x in walk_no_nested(fn) if isinstance(x, ast.For) and norm(x.iter) == "arrlist" and any(c in list(ast.walk(x)) for c in cps)]
-        chk.ob("R07.copy", q + "::copies-every-array", len(lp) == 1 and norm(lp[0].target) == "arr", fi.where(), "copy_fields runs for every array of the list")
-    # (f) freshness of the returned value
-    rets = effects.return_tags_per_return(eng, fi, {})
-    for n, tags in rets:
-        p = sorted({t[1] for t in tags if t[0] == "P"})
-        chk.ob("R07.fresh", q + "::returns-new-array::" + norm(n.ast.value), not p, fi.where(n.ast),
-               "`return %s` is a new array%s" % (norm(n.ast.value), "" if not p else ": it can be (a view of) the argument %s" % p))
-    # returned value is the allocated array
-    for n, tags in rets:
-        if not any(t[0] == "P" for t in tags):
-            chk.ob("R07.fresh", q + "::returns-the-allocation", norm(n.ast.value) in alloc_names, fi.where(n.ast), "the allocated array is what is returned")
-
-
-def _descr_appends(fn, listname):
-    """(loop, append-arg expr, controlling ifs inside loop) for appends to listname"""
-    out = []
-    for lp in [x for x in walk_no_nested(fn) if isinstance(x, ast.For)]:
-        def visit(stmts, conds):
-            for s in stmts:
-                if isinstance(s, ast.If):
-                    visit(s.body, conds + [(norm(s.test), True)])
-                    visit(s.orelse, conds + [(norm(s.test), False)])
-                elif isinstance(s, ast.Expr) and isinstance(s.value, ast.Call) and call_name(s.value) == "append" \
-                        and norm(s.value.func.value) == listname:
-                    out.append((lp, s.value.args[0], conds))
-                elif isinstance(s, (ast.For, ast.While)):
-                    pass
-        visit(lp.body, [])
-    return out
-
-
-def _raise_guards(fi):
-    cfg = cfg_of(fi)
-    view = cfg.view()
-    return [(n, rules.controlling_tests(view, n)) for n in rules.raise_nodes(cfg)]
-
-
-def extract(chk, fi):
-    q = fi.qualname
-    apps = _descr_appends(fi.node, "new_descr")
-    ok = len(apps) == 1 and norm(apps[0][0].iter) == "arr.dtype.descr" and norm(apps[0][1]) == norm(apps[0][0].target) \
-        and apps[0][2] == [("name in keepnames", True)]
-    chk.ob("R07.order", q + "::original-order-filtered-by-membership", ok, fi.where(),
-           "extraction walks arr.dtype.descr in original order and keeps the unmodified entry when its name is requested")
-    nm = [a for a in _assigns(fi.node) if norm(a.targets[0]) == "name"]
-    chk.ob("R07.order", q + "::name-is-entry[0]", any(norm(a.value) == "d[0]" for a in nm), fi.where(), "the tested name is the entry's own name")
-    g = _raise_guards(fi)
-    chk.ob("R07.reject", q + "::missing-name-strict", any(("strict", "T") in ts and ("name not in arrnames", "T") in ts for n, ts in g), fi.where(),
-           "strict mode rejects a requested name that is not a field")
-    chk.ob("R07.reject", q + "::no-field-left", any(("len(new_descr) == 0", "T") in ts for n, ts in g), fi.where(), "an empty result is rejected")
-    wrap = [n for n in cfg_of(fi).nodes if n.kind == "branch" and "isinstance(keepnames" in norm(n.ast.test)]
-    chk.ob("R07.args", q + "::scalar-name-wrapped", len(wrap) == 1 and all(t in norm(wrap[0].ast.test) for t in ("tuple", "list", "ndarray")), fi.where(),
-           "a scalar name is wrapped; tuple, list and array name lists are taken as they are")
-
-
-def remove(chk, fi):
-    q = fi.qualname
-    apps = _descr_appends(fi.node, "new_descr")
-    ok = len(apps) == 1 and norm(apps[0][0].iter) in ("descr", "arr.dtype.descr") and norm(apps[0][1]) == norm(apps[0][0].target) \
-        and apps[0][2] == [("name not in rmnames", True)]
-    chk.ob("R07.order", q + "::original-order-filtered-by-non-membership", ok, fi.where(),
-           "removal walks the original descr in order and keeps the unmodified entry when its name is not listed")
-    d = [a for a in _assigns(fi.node) if norm(a.targets[0]) == "descr"]
-    chk.ob("R07.order", q + "::descr-is-input-descr", (not d) or all(norm(a.value) == "arr.dtype.descr" for a in d), fi.where(), "the walked descr is arr.dtype.descr")
-    g = _raise_guards(fi)
-    chk.ob("R07.reject", q + "::no-field-left", any(("len(new_descr) == 0", "T") in ts for n, ts in g), fi.where(), "removing every field is rejected")
-    wrap = [n for n in cfg_of(fi).nodes if n.kind == "branch" and "isinstance(rmnames" in norm(n.ast.test)]
-    if wrap and not all(t in norm(wrap[0].ast.test) for t in ("tuple", "ndarray")):
-        chk.observe("R07.args", fi.where(wrap[0].ast), "remove_fields wraps anything that is not a list: a tuple/array of names is treated as one name and "
-                    "silently removes nothing (documentation only mentions names; outside the documented quantifier)")
-
-
-def add(chk, fi):
-    q = fi.qualname
-    fn = fi.node
-    env = {norm(a.targets[0]): norm(a.value) for a in _assigns(fn)}
-    ok = env.get("old_descr") == "arr.dtype.descr" and env.get("new_descr") in ("copy.deepcopy(old_descr)", "list(old_descr)", "old_descr[:]", "copy.copy(old_descr)")
-    chk.ob("R07.order", q + "::starts-from-original-descr", ok, fi.where(), "the new descr starts as a copy of the original descr (old fields first, original order)")
-    apps = _descr_appends(fn, "new_descr")
-    ok = len(apps) == 1 and norm(apps[0][0].iter) == "add_descr" and norm(apps[0][1]) == norm(apps[0][0].target)
-    chk.ob("R07.order", q + "::appends-added-entries-in-order", ok, fi.where(), "added entries are appended unmodified in the order given")
-    chk.ob("R07.order", q + "::added-descr-provenance", env.get("add_descr") == "add_dtype.descr" and env.get("add_dtype") == "np.dtype(add_dtype_or_descr)", fi.where(),
-           "the added descr is np.dtype(<argument>).descr")
-    g = _raise_guards(fi)
-    chk.ob("R07.reject", q + "::existing-name", any(any("old_names.count(name) == 0" == t and lab == "F" or t == "name in old_names" and lab == "T" for t, lab in ts) for n, ts in g), fi.where(),
-           "adding a name that already exists is rejected")
-    chk.ob("R07.reject", q + "::defaults-length", any(("len(defaults) != len(add_descr)", "T") in ts for n, ts in g), fi.where(), "defaults of the wrong length are rejected")
-    # defaults applied by name to the new array, for the added names, only when given
-    cfg = cfg_of(fi)
-    view = cfg.view()
-    cb = [(n, c) for n in cfg.nodes for c in rules.stmts_calls(n) if call_name(c) == "copy_fields_by_name"]
-    ok = len(cb) == 1
-    if ok:
-        n, c = cb[0]
-        ts = rules.controlling_tests(view, n)
-        ok = ("defaults is not None", "T") in ts and [norm(a) for a in c.args] == ["new_arr", "list(add_dtype.names)", "defaults"]
-    chk.ob("R07.defaults", q + "::defaults-by-name", ok, fi.where(), "supplied defaults are written by name into the added fields of the new array, only when given")
-    # the defaults reach copy_fields_by_name as given (or wrapped in a list): an array conversion would coerce mixed-type defaults to one type
-    reb = [a for a in _assigns(fi.node) if norm(a.targets[0]) == "defaults"]
-    bad = [norm(a)[:70] for a in reb if not (isinstance(a.value, ast.List) and len(a.value.elts) == 1 and norm(a.value.elts[0]) == "defaults")
-           and not (isinstance(a.value, ast.Call) and call_name(a.value) in ("list", "tuple") and len(a.value.args) == 1 and norm(a.value.args[0]) == "defaults")]
-    chk.ob("R07.defaults", q + "::defaults-not-converted", not bad, fi.where(),
-           "the default values are applied one by one with their own types (only wrapped in a list, never converted to an array)%s" % ("" if not bad else ": `%s`" % bad[0]))
-    # order: copy of old data before defaults
-    cps = [(n, c) for n in cfg.nodes for c in rules.stmts_calls(n) if call_name(c) == "copy_fields"]
-    if cb and cps:
-        chk.ob("R07.defaults", q + "::old-data-copied-first", view.dominates(cps[0][0], cb[0][0]), fi.where(), "old data are copied before defaults are applied")
-
-
-def reorder(chk, fi):
-    q = fi.qualname
-    fn = fi.node
-    loops = sorted([x for x in walk_no_nested(fn) if isinstance(x, ast.For)], key=lambda x: x.lineno)
-    chk.ob("R07.order", q + "::two-passes", len(loops) == 2, fi.where(), "two passes build the new order")
-    if len(loops) != 2:
-        return
-    first, second = loops
-    env = {norm(a.targets[0]): norm(a.value) for a in _assigns(fn)}
-    chk.ob("R07.order", q + "::originals", env.get("original_descr") == "arr.dtype.descr" and env.get("original_names") == "np.array(arr.dtype.names)", fi.where(),
-           "names and descr entries are taken from the same dtype (parallel order)")
-    apps = _descr_appends(fn, "new_descr")
-    a1 = [a for a in apps if a[0] is first]
-    a2 = [a for a in apps if a[0] is second]
-    ok1 = norm(first.iter) == "ordered_names" and len(a1) == 1 and norm(a1[0][1]) == "original_descr[w[0]]" and a1[0][2] == [("w.size != 0", True)]
-    wdef = [a for a in ast.walk(first) if isinstance(a, ast.Assign) and isinstance(a.value, ast.Call) and call_name(a.value) == "where"]
-    ok1 = ok1 and len(wdef) == 1 and norm(wdef[0].value.args[0]) == "original_names == name"
-    chk.ob("R07.order", q + "::named-fields-first-in-given-order", ok1, fi.where(first),
-           "first pass: for each requested name, in the order given, append the original entry at the position where the names match")
-    ok2 = norm(second.iter) == "range(original_names.size)" and len(a2) == 1 and norm(a2[0][1]) == "original_descr[%s]" % norm(second.target) \
-        and a2[0][2] == [("name not in new_names", True)]
-    nm = [a for a in ast.walk(second) if isinstance(a, ast.Assign) and norm(a.targets[0]) == "name"]
-    ok2 = ok2 and len(nm) == 1 and norm(nm[0].value) == "original_names[%s]" % norm(second.target)
-    chk.ob("R07.order", q + "::rest-after-in-original-order", ok2, fi.where(second),
-           "second pass: remaining fields in original order, each appended once (not already taken)")
-    # new_names is kept in step with new_descr in both passes
-    napps = _descr_appends(fn, "new_names")
-    chk.ob("R07.order", q + "::taken-names-tracked", len(napps) == 2 and all(norm(a[1]) == "name" for a in napps) and
-           sorted(str(a[2]) for a in napps) == sorted(str(a[2]) for a in apps), fi.where(), "the list of taken names grows together with the descr in both passes")
-    g = _raise_guards(fi)
-    chk.ob("R07.reject", q + "::missing-name-strict", any(("strict", "T") in ts and ("w.size != 0", "F") in ts for n, ts in g), fi.where(),
-           "strict mode rejects a requested name that is not a field")
-
-
-def combine(chk, fi):
-    q = fi.qualname
-    fn = fi.node
-    g = _raise_guards(fi)
-    chk.ob("R07.reject", q + "::empty-list", any(("len(arrlist) == 0", "T") in ts for n, ts in g), fi.where(), "an empty list is rejected")
-    chk.ob("R07.reject", q + "::length-mismatch", any(any(t in ("arr.size != num", "arr.shape != shape", "arr.shape != arrlist[0].shape") and lab == "T" for t, lab in ts) for n, ts in g), fi.where(),
-           "arrays of different length/shape are rejected")
-    aug = [x for x in walk_no_nested(fn) if isinstance(x, ast.AugAssign) and norm(x.target) == "descr" and isinstance(x.op, ast.Add)]
-    ok = len(aug) == 1 and norm(aug[0].value) == "arr.dtype.descr"
-    lp = [x for x in walk_no_nested(fn) if isinstance(x, ast.For) and norm(x.iter) == "arrlist" and aug and aug[0] in list(ast.walk(x))]
-    chk.ob("R07.order", q + "::field-lists-concatenated-in-list-order", ok and len(lp) == 1 and norm(lp[0].target) == "arr", fi.where(),
-           "the combined descr is the concatenation of each array's dtype.descr in list order")
-    chk.assume("a field name shared between combined arrays is rejected by numpy.dtype construction (duplicate field names raise ValueError)")
-
-
-def copiers(chk, repo):
-    fi = repo.func(NU + "copy_fields")
-    chk.analysed_unit(fi.qualname)
-    q = fi.qualname
-    fn = fi.node
-    lp = [x for x in walk_no_nested(fn) if isinstance(x, ast.For)]
-    ok = False
-    if len(lp) == 1:
-        v = norm(lp[0].target)
-        env = {norm(a.targets[0]): norm(a.value) for a in _assigns(fn)}
-        it = env.get(norm(lp[0].iter), norm(lp[0].iter))
-        body = lp[0].body
-        ok = it == "arr1.dtype.names" and len(body) == 1 and isinstance(body[0], ast.If) and \
-            env.get(norm(body[0].test.comparators[0]), "") == "arr2.dtype.names" and norm(body[0].test.left) == v and isinstance(body[0].test.ops[0], ast.In) and \
-            len(body[0].body) == 1 and norm(body[0].body[0]) == "arr2[%s] = arr1[%s]" % (v, v)
-    chk.ob("R07.copier", q + "::assigns-every-common-name", ok, fi.where(), "copy_fields assigns arr2[name] = arr1[name] for every name of arr1 that arr2 also has")
-    # every write into the destination is by field name, and the by-name loop is on every normal path (no positional shortcut)
-    cfgc = rules.cfg_of(fi)
-    viewc = cfgc.view()
-    dst = fi.params[1]
-    stores = [n for n in cfgc.nodes if n.kind == "stmt" and isinstance(n.ast, (ast.Assign, ast.AugAssign))
-              and any(isinstance(t, ast.Subscript) and norm(t.value) == dst for t in (n.ast.targets if isinstance(n.ast, ast.Assign) else [n.ast.target]))]
-    byname = [n for n in stores if isinstance(n.ast, ast.Assign) and isinstance(n.ast.targets[0].slice, ast.Name) and isinstance(n.ast.value, ast.Subscript)
-              and norm(n.ast.value.slice) == norm(n.ast.targets[0].slice) and norm(n.ast.value.value) == fi.params[0]]
-    chk.ob("R07.copier", q + "::destination-written-by-name-only", bool(stores) and len(stores) == len(byname), fi.where(stores[0].ast) if stores else fi.where(),
-           "every store into the destination is `%s[name] = %s[name]` with one name (fields are matched by name, never by position): %s"
-           % (dst, fi.params[0], [norm(n.ast)[:60] for n in stores if n not in byname] or "ok"))
-    loopn = [n for n in cfgc.nodes if n.kind == "loop"]
-    chk.ob("R07.copier", q + "::by-name-loop-on-every-path", len(loopn) == 1 and viewc.dominates(loopn[0], cfgc.exit), fi.where(),
-           "every normal return passes through the by-name loop (no early return around it)")
-    g = _raise_guards(fi)
-    chk.ob("R07.reject", q + "::size-mismatch", any(("arr1.size != arr2.size", "T") in ts or ("arr1.shape != arr2.shape", "T") in ts for n, ts in g), fi.where(), "different sizes are rejected")
-    fi = repo.func(NU + "copy_fields_by_name")
-    chk.analysed_unit(fi.qualname)
-    q = fi.qualname
-    lp = [x for x in walk_no_nested(fi.node) if isinstance(x, ast.For)]
-    ok = len(lp) == 1 and norm(lp[0].iter) == "zip(names, vals)" and norm(lp[0].target) == "(name, val)" and \
-        any(norm(s) == "arr[name] = val" for s in ast.walk(lp[0]) if isinstance(s, ast.Assign))
-    chk.ob("R07.copier", q + "::assigns-value-by-name", ok, fi.where(), "copy_fields_by_name pairs names with values positionally and assigns arr[name] = val")
-    g = _raise_guards(fi)
-    chk.ob("R07.reject", q + "::length-mismatch", any(("len(names) != len(vals)", "T") in ts for n, ts in g), fi.where(), "name/value lists of different length are rejected")
-
-
-def compare(chk, fi):
-    chk.analysed_unit(fi.qualname)
-    q = fi.qualname
-    cfg = cfg_of(fi)
-    view = cfg.view()
-    rets = rules.return_nodes(cfg)
-    vals = {}
-    for n in rets:
-        ts = dict(rules.controlling_tests(view, n))
-        vals[norm(n.ast.value)] = ts.get("nfail == 0")
-    chk.ob("R07.compare", q + "::true-iff-no-failure", vals == {"True": "T", "False": "F"}, fi.where(), "compare_arrays returns True exactly when no difference was counted (%s)" % vals)
-    incs = [n for n in cfg.nodes if n.kind == "stmt" and isinstance(n.ast, ast.AugAssign) and norm(n.ast.target) == "nfail"]
-    tests = {rules.controlling_tests(view, n)[0][0] if rules.controlling_tests(view, n) else "" for n in incs}
-    need = {"w.size > 0", "arr2[n].shape != arr1[n].shape"}
-    chk.ob("R07.compare", q + "::counts-shape-and-element-differences", need <= tests, fi.where(), "shape differences and element differences are counted (%s)" % sorted(tests))
+    split(chk, repo, sf)
+    compare(chk, repo, repo.func(NU + "compare_arrays"))
